@@ -19,15 +19,29 @@ EXPLANATION = (
     "time-shifted values plus bootstrap, or receives per-trajectory data; provenance of the arguments is followed through callers "
     "to detect an environment-merging reshape. The MR.Q encoder roll-out is checked for mask discipline (every term weighted by the "
     "carried-in mask, the mask updated after all uses) and, with the symbolic shape engine, for per-sample mask broadcasting at every "
-    "masked_mse_loss call site (no (B,)*(B,1) outer product, no reshape used as transpose)."
+    "masked_mse_loss call site (no (B,)*(B,1) outer product, no reshape used as transpose). "
+    "Forms read beyond the loops: a factor computed once before the loop (taking an element commutes with element-wise arithmetic), counting loops "
+    "(`while` with a counter, loops over a range of indices: first index, step, last index), later helpers that hold a nested definition and therefore "
+    "cannot be expanded in place (read where they stand, parameters bound to what the one call site passes), further per-step flag inputs of the GAE "
+    "(the recurrence must hold in every 0/1 world of the flags a call site can produce: a sum of two flags is not a flag). Loop-free (vectorised) "
+    "return code and a termination mask computed before the roll-out are evaluated exactly for every length 1..4 and every termination pattern on tiny "
+    "arrays of polynomials: a difference is a counter-example (violation), agreement up to the bound is not a proof (undecided); a division by a power "
+    "of gamma is a violation because gamma = 0 is inside the quantified range."
 )
-TRUSTED = ["jax.lax.scan / nnx.scan carry-and-stack semantics; jax.vmap in_axes semantics; x[::-1] reverses axis 0", "numpydoc shapes of masked_mse_loss"]
+TRUSTED = ["jax.lax.scan / nnx.scan carry-and-stack semantics; jax.vmap in_axes semantics; x[::-1] reverses axis 0", "numpydoc shapes of masked_mse_loss",
+           "numpy / jax.numpy semantics of the operations the small-length evaluation reads (basic indexing, broadcasting, concatenate / stack / hstack, cumsum, cumprod, sum, prod, flip, where, "
+           "arange, power, zeros / ones / full and *_like, .at[].set); checked against numpy on random small arrays when the evaluator was written",
+           "termination and truncation columns of a roll-out buffer are 0/1 flags that can both be 1 at the same step (gymnasium step API)"]
 RULES = {
-    "R1-gae": "scan body: delta == r + gamma*v'*(1-d) - v, A == delta + gamma*lambda*(1-d)*A_prev (carry == output); inputs all reversed along axis 0, output reversed back; returns == A + v; initial carry 0",
-    "R2-n-step": "loop body: G' == G + c*r_t, c' == c*gamma*(1-d_t) with G updated from the old c; G0 = 0, c0 = 1, t over the whole horizon",
-    "R3-reward-to-go": "acc' == gamma*acc + r over reversed(rewards), each acc' recorded, result reversed; acc0 = 0",
+    "R1-gae": "scan body: delta == r + gamma*v'*(1-d) - v, A == delta + gamma*lambda*(1-d)*A_prev (carry == output); inputs all reversed along axis 0, output reversed back; returns == A + v; initial carry 0; "
+              "with further per-step flag inputs the recurrence holds in every 0/1 world of the flags that a call site can produce",
+    "R2-n-step": "loop body: G' == G + c*r_t, c' == c*gamma*(1-d_t) with G updated from the old c; G0 = 0, c0 = 1, t over the whole horizon; loop-free code: equal to the unrolled recurrence for every horizon 1..4 "
+                 "and every termination pattern (a difference is a violation, agreement is undecided)",
+    "R3-reward-to-go": "acc' == gamma*acc + r over reversed(rewards) (or a counting loop / index range that visits every reward from the last to the first), each acc' recorded, result reversed; acc0 = 0; "
+                       "loop-free code: equal to the recurrence for every episode length 1..4 and defined for gamma = 0",
     "R4-per-trajectory": "compute_gae sees one trajectory at a time: vmapped over the environment axis of (T,N) data with time-shifted successor values, or fed per-trajectory data that passed no environment-merging reshape",
-    "R5-post-terminal-mask": "every term of the encoder roll-out is weighted by the mask carried in, the mask is updated after all uses with not_done[:,t]; mask broadcasting is per sample (shape engine)",
+    "R5-post-terminal-mask": "every term of the encoder roll-out is weighted by the mask carried in, the mask is updated after all uses with not_done[:,t]; mask broadcasting is per sample (shape engine); "
+                             "a mask computed before the roll-out for all steps is the product of the not-terminated flags of the earlier steps (horizons 1..4, every termination pattern)",
     "R6-env-index": "per-environment arrays are indexed by environment indices, not by positions in a filtered list",
 }
 
@@ -123,6 +137,137 @@ def _orientation(nf, p: Poly, bases):
     return None
 
 
+def _unwrap_seq(nf, p: Poly):
+    """("flip" | "same", inner sequence) when ``p`` is one reversal (x[::-1], reversed(x), flip(x, 0)) or one transparent wrapper of a sequence."""
+    a = p.single_atom()
+    if a is None:
+        return None
+    f, m = _fn_of(nf, p)
+    args, kws = m.get("args", []), m.get("kws", {})
+    if f == "flip" and ((len(args) == 2 and not kws and args[1].is_const() and args[1].const_value() == 0) or (len(args) == 1 and set(kws) == {"axis"} and kws["axis"].is_const() and kws["axis"].const_value() == 0)):
+        return "flip", args[0]
+    if f in ("list", "tuple", "iter", "array", "asarray") and len(args) == 1 and not (set(kws) - {"dtype"}):
+        return "same", args[0]
+    if f in ("reversed", "flip") and len(args) == 1 and not kws:
+        return "flip", args[0]
+    if f == "subscript" and a.endswith("[::-1]") and args:
+        return "flip", args[0]
+    return None
+
+
+def _optional_sequence(nf, cfg, sc, atom: str, extras):
+    """The later parameter an atom `φ(name@defs)` stands for when its reaching definitions are that parameter itself and a freshly made
+    all-zero array (`if x is None: x = zeros_like(...)`): in either case a value the parameter may take.  None when not that."""
+    import re
+    m = re.fullmatch(r"φ\((\w+)@([\d,]+)\)", atom)
+    if not m or m.group(1) not in extras:
+        return None
+    name, alts = m.group(1), []
+    for nid in m.group(2).split(","):
+        ds = [d for d in cfg.nodes[int(nid)].defs if d.name == name]
+        if len(ds) != 1:
+            return None
+        d = ds[0]
+        if d.kind == "param":
+            alts.append("param")
+        elif d.kind == "assign" and d.value is not None:
+            v, filled = _fill_value(nf, nf.poly(d.value, sc, d.node))
+            if not (v.is_const() and v.const_value() == 0 and v.elems is None and len(filled) == 1):
+                return None
+            alts.append("zero")
+        else:
+            return None
+    return name if sorted(alts) == ["param", "zero"] else None
+
+
+def _passed_for(repo, nf, gfn, gq, pname):
+    """What every call site of compute_gae passes for the (later, optional) parameter ``pname``: "absent", "column:<field>" - a column of a
+    roll-out buffer, reached directly or through a wrapper mapped with vmap - or "?"."""
+    import re
+    out = []
+    for qual, fn, mi in repo.all_functions():
+        for c in ast.walk(fn):
+            if not (isinstance(c, ast.Call) and isinstance(c.func, (ast.Name, ast.Attribute)) and repo.resolve_expr(mi, c.func) == gq):
+                continue
+            if next((a_ for a_ in _ancestors(c) if isinstance(a_, (ast.FunctionDef, ast.AsyncFunctionDef))), None) is not fn:
+                continue
+            if any(isinstance(a_, ast.Starred) for a_ in c.args) or any(k_.arg is None for k_ in c.keywords):
+                out.append("?")
+                continue
+            a = bind_call(gfn, c).get(pname)
+            if a is None:
+                out.append("absent")
+                continue
+            val = None
+            ip = positional_params(fn)
+            if "<locals>" in qual and isinstance(a, ast.Name) and a.id in ip and not any(isinstance(x, ast.Name) and x.id == a.id and isinstance(x.ctx, ast.Store) for x in ast.walk(fn)):
+                # the wrapper's parameter: what the one mapped application passes at that position
+                outer_q = qual.split(".<locals>.")[0]
+                ofn = repo.func(outer_q)
+                ocfg = nf.cfg_of(ofn)
+                apps = []
+                for n_ in ocfg.nodes:
+                    if n_.ast is None or n_.kind != "stmt":
+                        continue
+                    for x in ast.walk(n_.ast):
+                        if not isinstance(x, ast.Call) or any(isinstance(y, ast.Starred) for y in x.args) or x.keywords:
+                            continue
+                        f_ = x.func
+                        if isinstance(f_, ast.Name):
+                            ds = ocfg.defs_of(n_.id, f_.id)
+                            f_ = ds[0].value if len(ds) == 1 and ds[0].kind == "assign" else None
+                        if isinstance(f_, ast.Call) and isinstance(f_.func, (ast.Name, ast.Attribute)) and repo.resolve_expr(mi, f_.func) in ("jax.vmap", "flax.nnx.vmap") and f_.args \
+                                and isinstance(f_.args[0], ast.Name) and f_.args[0].id == fn.name:
+                            apps.append((n_, x))
+                if len(apps) == 1 and ip.index(a.id) < len(apps[0][1].args):
+                    _afn, _aq, oenv = _anchored(repo, nf, ofn, outer_q)
+                    val = nf.poly(apps[0][1].args[ip.index(a.id)], Scope(ocfg, mi, oenv, outer_q), apps[0][0].id)
+            elif "<locals>" not in qual:
+                cfg = nf.cfg_of(fn)
+                val = nf.poly(a, Scope(cfg, mi, _env(fn), qual), cfg.node_of(c).id)
+            m = re.fullmatch(r"[\w.]+\.buffer\['(\w+)'\]", val.canon()) if val is not None and val.elems is None else None
+            out.append(f"column:{m.group(1)}" if m else "?")
+    return out
+
+
+def _flag_worlds(ck, repo, nf, q, fn, key, nm, got: Poly, want: Poly, used: dict, where):
+    """The recurrence with further per-step flag inputs: in every world of the flags (termination and the further ones, each 0 or 1, as far
+    as a call site can produce it) the value must be the documented one.  A world in which it is not is the evidence."""
+    from itertools import product
+    from ..sem import same_ingredients
+    if _unread(got) or not same_ingredients(got, want, tuple(used.values())) or not got.atoms() <= (want.atoms() | set(used.values())):
+        raise AnalysisError(f"{q}: {key} is `{got.canon()[:110]}` (unrecognised form)")
+    gq = "rl_blox.blox.gae.compute_gae"
+    ranges = {}
+    for p_, x_ in used.items():
+        passed = _passed_for(repo, nf, fn, gq, p_)
+        if any(v_ in ("column:truncations",) for v_ in passed):
+            ranges[x_] = (0, 1)               # a flag column that is independent of the termination column
+        elif all(v_ == "absent" for v_ in passed):
+            ranges[x_] = (0,)
+        else:
+            raise AnalysisError(f"{q}: `{p_}` receives {sorted(set(passed))} at the call sites (unrecognised form)")
+    names = ["D"] + sorted(ranges)
+    bad = []
+    for vals in product(*[(0, 1)] + [ranges[x_] for x_ in names[1:]]):
+        w = {a_: Poly.const(v_) for a_, v_ in zip(names, vals)}
+        g_, w_ = got.subst(w), want.subst(w)
+        if g_ != w_:
+            one = {a_: Poly.const(1) for a_ in g_.atoms() | w_.atoms() if a_ != "A_prev"}
+            fac = g_.subst(one).degree_split("A_prev").get(1, Poly.const(0))
+            bad.append((dict(zip(names, vals)), g_, w_, fac))
+    ok = not bad
+    detail = ""
+    if bad:
+        bad.sort(key=lambda b_: not (b_[3].is_const() and b_[3].const_value() not in (0, 1)))
+        wd, g_, w_, fac = bad[0]
+        world = ", ".join(f"{'terminated' if a_ == 'D' else a_[2:]}={v_}" for a_, v_ in wd.items())
+        detail = f"at a step with {world} the {nm} is `{g_.canon()[:80]}`, the recurrence gives `{w_.canon()[:80]}`"
+        if fac.is_const() and fac.const_value() not in (0, 1):
+            detail += f" (the continuation factor is {fac.canon()}: a sum of flags is not a flag)"
+    ck.ob("R1-gae", q, key, ok, f"{nm} = {got.canon()[:150]}", detail, where, witness=[f"world {b_[0]}: {b_[1].canon()[:90]} instead of {b_[2].canon()[:90]}" for b_ in bad[:4]] or None)
+
+
 def r1_gae(ck, repo, nf):
     """The scan body is evaluated with its per-step input bound to what the scan call really passes: element t of every sequence of
     the xs tuple (element-wise arithmetic on the sequences before the scan commutes with taking the element)."""
@@ -172,19 +317,35 @@ def r1_gae(ck, repo, nf):
     if xs.elems is None:
         raise AnalysisError(f"{q}: scan inputs `{xs.canon()[:80]}` are not a tuple of sequences (unrecognised form)")
     roles = {PR: "R", PV: "V", PNV: "NV", PD: "D"}
+    # sequences accepted beyond the recorded six parameters (optional ones added later): read as further per-step inputs
+    extras = {p_: f"X_{p_}" for p_ in ps[6:]}
+    seq_atoms = {**roles, **extras}
     elems, directions = [], set()
-    for e_ in xs.elems:
+
+    def read_seq(p_, flips, depth=0):
+        """A scanned sequence as element-wise arithmetic on the role sequences; turning a sequence round commutes with that arithmetic."""
         sub = {}
-        for a_ in e_.atoms():
-            o_ = _orientation(nf, Poly.atom(a_), set(roles))
-            if o_ is not None:
-                sub[a_] = Poly.atom(roles[o_[1]])
-                directions.add("reversed" if o_[0] else "forward")
-            elif a_ in (PG, PL):
+        for a_ in p_.atoms():
+            if a_ in (PG, PL):
                 continue
-            else:
-                raise AnalysisError(f"{q}: scan input `{e_.canon()[:80]}` is not element-wise arithmetic on the four sequences (unrecognised form)")
-        elems.append(e_.subst(sub))
+            o_ = _orientation(nf, Poly.atom(a_), set(seq_atoms))
+            if o_ is not None:
+                sub[a_] = Poly.atom(seq_atoms[o_[1]])
+                directions.add("reversed" if (o_[0] + flips) % 2 else "forward")
+                continue
+            inner = _unwrap_seq(nf, Poly.atom(a_)) if depth < 6 else None
+            if inner is not None and inner[1].elems is None:
+                sub[a_] = read_seq(inner[1], flips + (1 if inner[0] == "flip" else 0), depth + 1)
+                continue
+            opt = _optional_sequence(nf, ocfg, osc, a_, extras) if depth < 6 else None
+            if opt is not None:
+                sub[a_] = Poly.atom(extras[opt])          # the parameter, or an all-zero array when it is not given: a value of the parameter's range
+                directions.add("reversed" if flips % 2 else "forward")
+                continue
+            raise AnalysisError(f"{q}: scan input `{p_.canon()[:80]}` is not element-wise arithmetic on the four sequences (unrecognised form)")
+        return p_.subst(sub)
+    for e_ in xs.elems:
+        elems.append(read_seq(e_, 0))
     if not directions:
         raise AnalysisError(f"{q}: scan inputs `{xs.canon()[:80]}` do not contain the four sequences (unrecognised form)")
     if len(directions) != 1:
@@ -208,6 +369,10 @@ def r1_gae(ck, repo, nf):
     where = loc(mi, body)
     for k, nm in ((0, "carry"), (1, "output")):
         # the carried value is the advantage itself (a pair / record as carry, a slice of it, ... is another way to organise the scan)
+        used = sorted(p_ for p_, x_ in extras.items() if x_ in rp.elems[k].atoms())
+        if used and rp.elems[k] != want:
+            _flag_worlds(ck, repo, nf, q, fn, f"recurrence:{nm}", nm, rp.elems[k], want, {p_: extras[p_] for p_ in used}, where)
+            continue
         _decide(ck, "R1-gae", q, f"recurrence:{nm}", rp.elems[k], want, f"{nm} = {rp.elems[k].canon()[:150]}", f"differs from delta + gamma*lambda*(1-d)*A_prev by `{(rp.elems[k] - want).canon()[:150]}`", where, atoms=())
     init = nf.poly(b["init"], osc, n.id)
     init_v, _filled = _fill_value(nf, init)           # 0.0, jnp.zeros(()), jnp.zeros_like(values[0]) all start the recursion at 0
@@ -252,6 +417,817 @@ def _loop_body_eval(nf, fn, mi, q, loop, env0):
     return pe
 
 
+def _loop_invariants(nf, cfg, mi, q, env, lp, hdr, skip=()):
+    """Locals the loop reads but never rebinds, as the values that reach the loop header (a factor computed once before the loop is the
+    same value as the expression written out in the body)."""
+    stored = {x.id for x in ast.walk(lp) if isinstance(x, ast.Name) and isinstance(x.ctx, (ast.Store, ast.Del))}
+    out = {}
+    sc = Scope(cfg, mi, env, q)
+    for x in ast.walk(lp):
+        if isinstance(x, ast.Name) and isinstance(x.ctx, ast.Load) and x.id not in env and x.id not in stored and x.id not in skip and x.id not in out and cfg.defs_of(hdr, x.id):
+            out[x.id] = nf.poly(ast.copy_location(ast.Name(id=x.id, ctx=ast.Load()), x), sc, hdr)
+    return out
+
+
+def _index_distributed(nf, p: Poly, arrays, scalars):
+    """Taking an element commutes with element-wise arithmetic on arrays of one shape (and scalars): (g*(1 - d))[:, t] == g*(1 - d[:, t])."""
+    arrays, scalars = set(arrays), set(scalars)
+    sub = {}
+    for a in p.atoms():
+        m = nf.meta.get(a, {})
+        if m.get("fn") != "subscript" or not m.get("args"):
+            continue
+        base = m["args"][0]
+        bt = base.canon()
+        if base.elems is not None or base.single_atom() is not None or not a.startswith(bt + "[") or not (base.atoms() & arrays) or not base.atoms() <= (arrays | scalars):
+            continue
+        idx = a[len(bt):]
+        sub[a] = base.subst({x: nf._reg(Poly.atom(x + idx, m["deps"] | {x}, frozenset({x})), "subscript", [Poly.atom(x, {x}, {x})]) for x in base.atoms() & arrays})
+    return p.subst(sub) if sub else p
+
+
+# ---------------------------------------------------------------------------------------------------------------------------------
+# Small-horizon evaluation of loop-free (vectorised) code.  Arrays are tiny concrete arrays of polynomials: the horizon axis has a
+# concrete extent (1, 2, 3, 4), the batch axis is symbolic (one representative sample, kept as an axis of extent 1 that only meets
+# itself or a broadcast 1), termination flags are the constants of one *world*.  Every library operation read here is evaluated exactly
+# as numpy / jax.numpy define it; anything else makes the evaluation undecided.  A value that differs from the unrolled recurrence for
+# one horizon and one termination pattern is a counter-example; agreement up to the bound is not a proof and is reported as undecided.
+
+class _NotRead(Exception):
+    pass
+
+
+class _BatchExtent:
+    def __repr__(self):
+        return "B"
+
+
+_B = _BatchExtent()
+_DTYPE = "<dtype>"
+
+
+class _Arr:
+    __slots__ = ("shape", "flat", "batch")
+
+    def __init__(self, shape, flat, batch=None):
+        self.shape, self.flat, self.batch = tuple(shape), list(flat), batch
+        n = 1
+        for d in self.shape:
+            n *= d
+        if n != len(self.flat) or (batch is not None and self.shape[batch] != 1):
+            raise _NotRead("array")
+
+    @property
+    def ndim(self):
+        return len(self.shape)
+
+    def public_shape(self):
+        return tuple(_B if i == self.batch else d for i, d in enumerate(self.shape))
+
+
+def _strides(shape):
+    out, n = [], 1
+    for d in reversed(shape):
+        out.append(n)
+        n *= d
+    return out[::-1]
+
+
+def _positions(shape):
+    from itertools import product
+    return product(*[range(d) for d in shape])
+
+
+def _as_arr(v):
+    if isinstance(v, _Arr):
+        return v
+    if isinstance(v, bool):
+        return _Arr((), [Poly.const(int(v))])
+    if isinstance(v, (int, float)):
+        from fractions import Fraction
+        return _Arr((), [Poly.const(Fraction(v))])
+    if isinstance(v, Poly) and v.elems is None:
+        return _Arr((), [v])
+    if isinstance(v, (tuple, list)):
+        items = [_as_arr(x) for x in v]
+        if not items:
+            return _Arr((0,), [])
+        return _stack(items, 0)
+    raise _NotRead("not a number or an array")
+
+
+def _scalar_out(a: "_Arr"):
+    return a.flat[0] if a.shape == () else a
+
+
+def _broadcast(arrs):
+    nd = max(a.ndim for a in arrs)
+    shape, batch = [1] * nd, None
+    for a in arrs:
+        off = nd - a.ndim
+        for i, d in enumerate(a.shape):
+            j = off + i
+            if a.batch == i:
+                if batch not in (None, j):
+                    raise _NotRead("two batch axes meet")
+                batch = j
+            elif d != 1:
+                if shape[j] not in (1, d):
+                    raise _NotRead("shapes do not broadcast")
+                shape[j] = d
+    if batch is not None and shape[batch] != 1:
+        raise _NotRead("the batch axis meets another axis")
+    # an axis of extent 0 wins over 1
+    for a in arrs:
+        off = nd - a.ndim
+        for i, d in enumerate(a.shape):
+            if d == 0:
+                shape[off + i] = 0
+    outs = []
+    for a in arrs:
+        off = nd - a.ndim
+        st = _strides(a.shape)
+        flat = []
+        for pos in _positions(shape):
+            k = 0
+            for i, d in enumerate(a.shape):
+                k += (pos[off + i] if d != 1 else 0) * st[i]
+            flat.append(a.flat[k])
+        outs.append(flat)
+    return tuple(shape), batch, outs
+
+
+def _elementwise(fn, *vals):
+    arrs = [_as_arr(v) for v in vals]
+    shape, batch, flats = _broadcast(arrs)
+    return _scalar_out(_Arr(shape, [fn(*xs) for xs in zip(*flats)], batch))
+
+
+def _axis(a: "_Arr", axis):
+    if not isinstance(axis, int) or isinstance(axis, bool) or not -a.ndim <= axis < a.ndim:
+        raise _NotRead("axis")
+    axis %= a.ndim
+    if axis == a.batch:
+        raise _NotRead("operation along the batch axis")
+    return axis
+
+
+def _lines(a: "_Arr", axis):
+    """Flat positions of every 1-d line of ``a`` along ``axis``."""
+    st = _strides(a.shape)
+    rest = [range(d) if i != axis else range(1) for i, d in enumerate(a.shape)]
+    from itertools import product
+    for pos in product(*rest):
+        base = sum(p * s for p, s in zip(pos, st))
+        yield [base + k * st[axis] for k in range(a.shape[axis])]
+
+
+def _cumulative(a, axis, op):
+    a = _as_arr(a)
+    if axis is None:
+        if a.ndim != 1:
+            raise _NotRead("cumulative operation without axis")
+        axis = 0
+    axis = _axis(a, axis)
+    flat = list(a.flat)
+    for line in _lines(a, axis):
+        acc = None
+        for k in line:
+            acc = flat[k] if acc is None else op(acc, flat[k])
+            flat[k] = acc
+    return _Arr(a.shape, flat, a.batch)
+
+
+def _reduce(a, axis, op, unit, keepdims=False):
+    a = _as_arr(a)
+    if axis is None:
+        if a.batch is not None:
+            raise _NotRead("reduction over the batch axis")
+        acc = unit
+        for x in a.flat:
+            acc = op(acc, x)
+        return acc
+    axis = _axis(a, axis)
+    out = []
+    for line in _lines(a, axis):
+        acc = unit
+        for k in line:
+            acc = op(acc, a.flat[k])
+        out.append(acc)
+    shape = list(a.shape)
+    shape[axis] = 1
+    r = _Arr(shape, out, a.batch)
+    if not keepdims:
+        r = _Arr(shape[:axis] + shape[axis + 1:], out, None if a.batch is None else (a.batch - 1 if a.batch > axis else a.batch))
+    return _scalar_out(r) if r.batch is None else r
+
+
+def _take(a: "_Arr", key):
+    """Basic indexing (ints, slices, None, Ellipsis); returns (shape, batch, flat positions in ``a``)."""
+    if not isinstance(key, tuple):
+        key = (key,)
+    if sum(1 for k in key if k is Ellipsis) > 1:
+        raise _NotRead("index")
+    n_real = sum(1 for k in key if k is not None and k is not Ellipsis)
+    if n_real > a.ndim:
+        raise _NotRead("too many indices")
+    if Ellipsis in key:
+        i = key.index(Ellipsis)
+        key = key[:i] + (slice(None),) * (a.ndim - n_real) + key[i + 1:]
+    else:
+        key = key + (slice(None),) * (a.ndim - n_real)
+    shape, choices, batch, ax = [], [], None, 0
+    for k in key:
+        if k is None:
+            shape.append(1)
+            choices.append(None)
+            continue
+        d = a.shape[ax]
+        if isinstance(k, slice):
+            if any(x is not None and (not isinstance(x, int) or isinstance(x, bool)) for x in (k.start, k.stop, k.step)):
+                raise _NotRead("slice bounds")
+            if ax == a.batch:
+                if k != slice(None):
+                    raise _NotRead("slice of the batch axis")
+                batch = len(shape)
+                idx = [0]
+            else:
+                idx = list(range(*k.indices(d)))
+            shape.append(len(idx))
+            choices.append((ax, idx))
+        elif isinstance(k, int) and not isinstance(k, bool):
+            if ax == a.batch or not -d <= k < d:
+                raise _NotRead("index out of range / into the batch axis")
+            choices.append((ax, k % d))
+        else:
+            raise _NotRead("index")
+        ax += 1
+    st = _strides(a.shape)
+    fixed = sum(c[1] * st[c[0]] for c in choices if c is not None and isinstance(c[1], int))
+    var = [c for c in choices if c is None or not isinstance(c[1], int)]
+    flat = []
+    for pos in _positions(shape):
+        k = fixed
+        for p, c in zip(pos, var):
+            if c is not None:
+                k += c[1][p] * st[c[0]]
+        flat.append(k)
+    return tuple(shape), batch, flat
+
+
+def _getitem(a: "_Arr", key):
+    shape, batch, pos = _take(a, key)
+    return _scalar_out(_Arr(shape, [a.flat[k] for k in pos], batch))
+
+
+def _concat(items, axis):
+    items = [_as_arr(x) for x in items]
+    if not items or any(x.ndim != items[0].ndim or x.ndim == 0 for x in items):
+        raise _NotRead("concatenate")
+    nd = items[0].ndim
+    if not isinstance(axis, int) or not -nd <= axis < nd:
+        raise _NotRead("axis")
+    axis %= nd
+    batch = next((x.batch for x in items if x.batch is not None), None)
+    if batch == axis:
+        raise _NotRead("concatenation along the batch axis")
+    ref = list(items[0].shape)
+    for x in items:
+        # an axis of extent 1 that is not the batch axis of this operand may not stand for the batch axis of another one
+        if any(d != r for i, (d, r) in enumerate(zip(x.shape, ref)) if i != axis) or x.batch not in (batch,):
+            raise _NotRead("concatenate: shapes")
+    shape = list(ref)
+    shape[axis] = sum(x.shape[axis] for x in items)
+    flat = {}
+    off = 0
+    st = _strides(shape)
+    for x in items:
+        for k, pos in enumerate(_positions(x.shape)):
+            p = list(pos)
+            p[axis] += off
+            flat[sum(i * s for i, s in zip(p, st))] = x.flat[k]
+        off += x.shape[axis]
+    n = 1
+    for d in shape:
+        n *= d
+    return _Arr(shape, [flat[k] for k in range(n)], batch)
+
+
+def _stack(items, axis):
+    items = [_as_arr(x) for x in items]
+    if any(x.shape != items[0].shape or x.batch != items[0].batch for x in items):
+        raise _NotRead("stack: shapes")
+    nd = items[0].ndim + 1
+    if not isinstance(axis, int) or not -nd <= axis < nd:
+        raise _NotRead("axis")
+    axis %= nd
+    key = (slice(None),) * axis + (None,)
+    return _concat([_as_arr(_getitem(x, key)) if x.ndim else _Arr((1,), x.flat) for x in items], axis)
+
+
+def _flip(a, axis):
+    a = _as_arr(a)
+    axis = _axis(a, axis)
+    return _getitem(a, (slice(None),) * axis + (slice(None, None, -1),))
+
+
+def _const_of(p):
+    if isinstance(p, Poly) and p.elems is None and p.is_const():
+        return p.const_value()
+    raise _NotRead("a comparison / selection on a symbolic value")
+
+
+class _Bounded:
+    """Demand-driven evaluation of the loop-free part of one function for concrete small extents."""
+
+    def __init__(self, repo, nf, fn, mi, q, env, zero_ok=()):
+        self.repo, self.nf, self.fn, self.mi, self.q, self.env = repo, nf, fn, mi, q, dict(env)
+        self.cfg = nf.cfg_of(fn)
+        self.memo = {}
+        self.depth = 0
+        self.zero_ok = set(zero_ok)       # atoms whose documented range contains 0
+        self.singular = []                # denominators that vanish inside the documented range
+
+    # -- names --------------------------------------------------------------------------------------------------------------------
+    def name(self, name, at):
+        defs = self.cfg.defs_of(at, name) if at is not None else []
+        if not defs:
+            if name in self.env:
+                return self.env[name]
+            raise _NotRead(f"name `{name}`")
+        if len(defs) != 1:
+            raise _NotRead(f"`{name}` has several definitions")
+        d = defs[0]
+        key = ("def", d.node, d.name)
+        if key in self.memo:
+            return self.memo[key]
+        if self.cfg.enclosing_loops(d.node) or self.depth > 60:
+            raise _NotRead(f"`{name}` is defined in a loop")
+        self.depth += 1
+        try:
+            if d.kind == "param":
+                if name not in self.env:
+                    raise _NotRead(f"parameter `{name}`")
+                v = self.env[name]
+            elif d.kind in ("assign", "walrus"):
+                v = self.ev(d.value, d.node)
+            elif d.kind == "unpack":
+                v = self.ev(d.value, d.node)
+                for i in d.path:
+                    if not isinstance(i, int):
+                        raise _NotRead("starred unpacking")
+                    if isinstance(v, _Arr):
+                        v = _getitem(v, i)
+                    elif isinstance(v, (tuple, list)) and -len(v) <= i < len(v):
+                        v = v[i]
+                    else:
+                        raise _NotRead("unpacking")
+            elif d.kind == "aug":
+                st = d.value
+                if not isinstance(st.target, ast.Name):
+                    raise _NotRead("augmented assignment")
+                v = self.binop(self.name(name, d.node), self.ev(st.value, d.node), st.op)
+            else:
+                raise _NotRead(f"definition of `{name}`")
+        finally:
+            self.depth -= 1
+        self.memo[key] = v
+        return v
+
+    # -- expressions --------------------------------------------------------------------------------------------------------------
+    def ev(self, e, at):
+        m = getattr(self, "e_" + type(e).__name__, None)
+        if m is None:
+            raise _NotRead(f"`{short(e, 40)}`")
+        return m(e, at)
+
+    def e_Constant(self, e, at):
+        from fractions import Fraction
+        if isinstance(e.value, float):
+            return Poly.const(Fraction(e.value))
+        return e.value
+
+    def e_Name(self, e, at):
+        if e.id in ("float", "int", "bool") and not self.cfg.defs_of(at, e.id) and e.id not in self.env:
+            return _DTYPE
+        return self.name(e.id, at)
+
+    def e_Tuple(self, e, at):
+        if any(isinstance(x, ast.Starred) for x in e.elts):
+            raise _NotRead("starred display")
+        return tuple(self.ev(x, at) for x in e.elts)
+
+    e_List = e_Tuple
+
+    def lib(self, func):
+        r = self.repo.resolve_expr(self.mi, func) if isinstance(func, (ast.Name, ast.Attribute)) else None
+        for pre in ("jax.numpy.", "numpy."):
+            if r and r.startswith(pre) and "." not in r[len(pre):]:
+                return r[len(pre):]
+        return None
+
+    def e_Attribute(self, e, at):
+        txt = dotted(e)
+        if txt and txt in self.env:
+            return self.env[txt]
+        lib = self.lib(e)
+        if lib == "newaxis":
+            return None
+        if lib in ("float32", "float64", "float16", "bfloat16", "int32", "int64", "bool_", "float_"):
+            return _DTYPE
+        v = self.ev(e.value, at)
+        if isinstance(v, _Arr):
+            if e.attr == "shape":
+                return v.public_shape()
+            if e.attr == "ndim":
+                return v.ndim
+            if e.attr == "dtype":
+                return _DTYPE
+        raise _NotRead(f"`{short(e, 40)}`")
+
+    def e_Subscript(self, e, at):
+        v = self.ev(e.value, at)
+        key = self.index(e.slice, at)
+        if isinstance(v, _Arr):
+            return _getitem(v, key)
+        if isinstance(v, (tuple, list)) and (isinstance(key, slice) or (isinstance(key, int) and not isinstance(key, bool))):
+            try:
+                return v[key]
+            except (IndexError, TypeError):
+                raise _NotRead("index")
+        raise _NotRead(f"`{short(e, 40)}`")
+
+    def index(self, s, at):
+        if isinstance(s, ast.Slice):
+            return slice(*[None if x is None else self.as_int(self.ev(x, at)) for x in (s.lower, s.upper, s.step)])
+        if isinstance(s, ast.Tuple):
+            return tuple(self.index(x, at) for x in s.elts)
+        v = self.ev(s, at)
+        if v is None or v is Ellipsis or isinstance(v, slice):
+            return v
+        return self.as_int(v)
+
+    @staticmethod
+    def as_int(v):
+        if isinstance(v, bool):
+            raise _NotRead("index")
+        if isinstance(v, int):
+            return v
+        if isinstance(v, Poly) and v.elems is None and v.is_const() and v.const_value().denominator == 1:
+            return int(v.const_value())
+        raise _NotRead("a symbolic index / extent")
+
+    def e_UnaryOp(self, e, at):
+        v = self.ev(e.operand, at)
+        if isinstance(e.op, ast.USub):
+            return -v if isinstance(v, (int, Poly)) and not isinstance(v, bool) else _elementwise(lambda x: -x, v)
+        if isinstance(e.op, ast.UAdd):
+            return v
+        if isinstance(e.op, ast.Not) and isinstance(v, bool):
+            return not v
+        raise _NotRead("operator")       # `~x` is the logical negation for boolean arrays only
+
+    def e_BinOp(self, e, at):
+        return self.binop(self.ev(e.left, at), self.ev(e.right, at), e.op)
+
+    def power(self, a, b):
+        k = _const_of(b)
+        if k.denominator != 1:
+            raise _NotRead("fractional power")
+        if int(k) < 0:
+            return self.divide(Poly.const(1), a.pow(-int(k)))
+        return a.pow(int(k))
+
+    def divide(self, a, b):
+        if b.is_const():
+            if b.const_value() == 0:
+                raise _NotRead("division by zero")
+            return a.scale(1 / b.const_value())
+        if len(b.terms) != 1 or a.is_zero():
+            raise _NotRead("division by a polynomial")
+        (mono, _c), = b.terms.items()
+        zero_at = sorted(x for x, k in mono if k > 0 and x in self.zero_ok)
+        if zero_at:
+            self.singular.append((b, zero_at))
+        return a * b.inv()
+
+    def binop(self, a, b, op):
+        plain = lambda v: isinstance(v, int) and not isinstance(v, bool)
+        if plain(a) and plain(b):
+            try:
+                if isinstance(op, ast.Add):
+                    return a + b
+                if isinstance(op, ast.Sub):
+                    return a - b
+                if isinstance(op, ast.Mult):
+                    return a * b
+                if isinstance(op, ast.FloorDiv):
+                    return a // b
+                if isinstance(op, ast.Mod):
+                    return a % b
+                if isinstance(op, ast.Pow) and b >= 0:
+                    return a ** b
+            except ZeroDivisionError:
+                raise _NotRead("division by zero")
+        if isinstance(a, (tuple, list)) and isinstance(b, (tuple, list)) and isinstance(op, ast.Add):
+            return tuple(a) + tuple(b)
+        if a is _B or b is _B:
+            raise _NotRead("arithmetic on the batch size")
+        if isinstance(op, ast.Add):
+            f = lambda x, y: x + y
+        elif isinstance(op, ast.Sub):
+            f = lambda x, y: x - y
+        elif isinstance(op, ast.Mult):
+            f = lambda x, y: x * y
+        elif isinstance(op, ast.Div):
+            f = self.divide
+        elif isinstance(op, ast.Pow):
+            f = self.power
+        else:
+            raise _NotRead("operator")
+        return _elementwise(f, a, b)
+
+    def e_Compare(self, e, at):
+        if len(e.ops) != 1:
+            raise _NotRead("chained comparison")
+        a, b, op = self.ev(e.left, at), self.ev(e.comparators[0], at), e.ops[0]
+        import operator
+        tab = {ast.Lt: operator.lt, ast.LtE: operator.le, ast.Gt: operator.gt, ast.GtE: operator.ge, ast.Eq: operator.eq, ast.NotEq: operator.ne}
+        if type(op) not in tab:
+            raise _NotRead("comparison")
+        if all(isinstance(v, int) for v in (a, b)):
+            return tab[type(op)](a, b)
+        return _elementwise(lambda x, y: Poly.const(int(tab[type(op)](_const_of(x), _const_of(y)))), a, b)
+
+    def e_IfExp(self, e, at):
+        c = self.ev(e.test, at)
+        if isinstance(c, Poly):
+            c = _const_of(c) != 0
+        if not isinstance(c, (bool, int)):
+            raise _NotRead("condition")
+        return self.ev(e.body if c else e.orelse, at)
+
+    # -- calls --------------------------------------------------------------------------------------------------------------------
+    def e_Call(self, e, at):
+        if any(isinstance(a, ast.Starred) for a in e.args) or any(k.arg is None for k in e.keywords):
+            raise _NotRead("packed arguments")
+        f = e.func
+        # x.at[idx].set(v) / .add(v) / .multiply(v)
+        if isinstance(f, ast.Attribute) and f.attr in ("set", "add", "multiply") and isinstance(f.value, ast.Subscript) and isinstance(f.value.value, ast.Attribute) and f.value.value.attr == "at" \
+                and len(e.args) == 1 and not e.keywords:
+            base = self.ev(f.value.value.value, at)
+            if isinstance(base, _Arr):
+                shape, batch, pos = _take(base, self.index(f.value.slice, at))
+                sel = _Arr(shape, [base.flat[k] for k in pos], batch)
+                new = _as_arr(_elementwise({"set": lambda x, y: y, "add": lambda x, y: x + y, "multiply": lambda x, y: x * y}[f.attr], sel, self.ev(e.args[0], at)))
+                if new.shape != sel.shape or new.batch != sel.batch:
+                    raise _NotRead("functional update: shapes")
+                flat = list(base.flat)
+                for k, v in zip(pos, new.flat):
+                    flat[k] = v
+                return _Arr(base.shape, flat, base.batch)
+        args = [self.ev(a, at) for a in e.args]
+        kws = {k.arg: self.ev(k.value, at) for k in e.keywords if k.arg != "dtype"}
+        name = self.lib(f)
+        if name is None and isinstance(f, ast.Name) and not self.cfg.defs_of(at, f.id) and f.id not in self.env and self.repo.resolve_name(self.mi, f.id) is None:
+            name = "builtins." + f.id
+        if name is None and isinstance(f, ast.Attribute):
+            recv = self.ev(f.value, at)
+            if isinstance(recv, _Arr) and f.attr in ("astype", "sum", "prod", "cumsum", "cumprod", "copy"):
+                name, args = f.attr, [recv] + args
+        if name is None:
+            raise _NotRead(f"call `{short(e, 40)}`")
+        return self.apply(name, args, kws)
+
+    def shape_arg(self, s):
+        if not isinstance(s, (tuple, list)):
+            s = (s,)
+        shape, batch = [], None
+        for i, d in enumerate(s):
+            if d is _B:
+                if batch is not None:
+                    raise _NotRead("shape")
+                batch = i
+                shape.append(1)
+            else:
+                shape.append(self.as_int(d))
+                if shape[-1] < 0:
+                    raise _NotRead("shape")
+        return tuple(shape), batch
+
+    def apply(self, name, args, kws):
+        from fractions import Fraction
+        kws = {k: v for k, v in kws.items() if k != "dtype"}
+        arg = lambda i, kw, default=_NotRead: args[i] if len(args) > i else (kws[kw] if kw in kws else default)
+
+        def only(n_max, *names):
+            if len(args) > n_max or set(kws) - set(names):
+                raise _NotRead(f"arguments of {name}")
+
+        def need(v):
+            if v is _NotRead:
+                raise _NotRead(f"arguments of {name}")
+            return v
+        one, zero = Poly.const(1), Poly.const(0)
+        if name in ("asarray", "array", "astype", "copy", "float32", "float64", "builtins.float", "float_"):
+            only(2)
+            v = need(arg(0, "a"))
+            if len(args) == 2 and args[1] is not _DTYPE:
+                raise _NotRead(f"arguments of {name}")
+            if isinstance(v, (tuple, list)):
+                return _as_arr(v)
+            if isinstance(v, bool):
+                raise _NotRead(f"arguments of {name}")
+            if isinstance(v, (int, float)):
+                return Poly.const(Fraction(v))
+            return v
+        if name in ("zeros", "ones", "full"):
+            only(2 if name != "full" else 3, "shape", "fill_value")
+            shape, batch = self.shape_arg(need(arg(0, "shape")))
+            fill = {"zeros": zero, "ones": one}.get(name)
+            if name == "full":
+                fill = _as_arr(need(arg(1, "fill_value")))
+                if fill.shape != ():
+                    raise _NotRead("fill value")
+                fill = fill.flat[0]
+            elif len(args) == 2 and args[1] is not _DTYPE:
+                raise _NotRead(f"arguments of {name}")
+            n = 1
+            for d in shape:
+                n *= d
+            return _Arr(shape, [fill] * n, batch)
+        if name in ("zeros_like", "ones_like", "full_like"):
+            only(1 if name != "full_like" else 2, "fill_value")
+            a = _as_arr(args[0])
+            fill = {"zeros_like": zero, "ones_like": one}.get(name)
+            if name == "full_like":
+                fill = _as_arr(need(arg(1, "fill_value")))
+                if fill.shape != ():
+                    raise _NotRead("fill value")
+                fill = fill.flat[0]
+            return _scalar_out(_Arr(a.shape, [fill] * len(a.flat), a.batch))
+        if name == "arange":
+            only(3)
+            r = range(*[self.as_int(x) for x in args]) if 1 <= len(args) <= 3 else None
+            if r is None:
+                raise _NotRead("arange")
+            return _Arr((len(r),), [Poly.const(k) for k in r])
+        if name in ("builtins.len",):
+            only(1)
+            v = args[0]
+            if isinstance(v, _Arr) and v.ndim and v.batch != 0:
+                return v.shape[0]
+            if isinstance(v, (tuple, list)):
+                return len(v)
+            raise _NotRead("len")
+        if name in ("builtins.int",) and len(args) == 1 and not kws:
+            return self.as_int(args[0])
+        if name in ("concatenate", "stack"):
+            only(2, "axis")
+            items = need(arg(0, "arrays"))
+            if not isinstance(items, (tuple, list)):
+                raise _NotRead(name)
+            return (_concat if name == "concatenate" else _stack)(items, arg(1, "axis", 0))
+        if name == "hstack":
+            only(1)
+            items = [_as_arr(x) for x in (args[0] if isinstance(args[0], (tuple, list)) else ())]
+            if not items:
+                raise _NotRead(name)
+            return _concat(items, 0 if items[0].ndim == 1 else 1)
+        if name in ("cumsum", "cumprod"):
+            only(2, "axis")
+            return _cumulative(args[0], arg(1, "axis", None), (lambda x, y: x + y) if name == "cumsum" else (lambda x, y: x * y))
+        if name in ("sum", "prod"):
+            only(2, "axis", "keepdims")
+            kd = kws.get("keepdims", False)
+            if not isinstance(kd, bool):
+                raise _NotRead("keepdims")
+            return _reduce(args[0], arg(1, "axis", None), (lambda x, y: x + y) if name == "sum" else (lambda x, y: x * y), zero if name == "sum" else one, kd)
+        if name == "flip":
+            only(2, "axis")
+            a = _as_arr(args[0])
+            ax = arg(1, "axis", None)
+            if ax is None:
+                if a.ndim != 1:
+                    raise _NotRead("flip without axis")
+                ax = 0
+            return _flip(a, ax)
+        if name == "expand_dims":
+            only(2, "axis")
+            a = _as_arr(args[0])
+            ax = need(arg(1, "axis"))
+            if not isinstance(ax, int) or not -(a.ndim + 1) <= ax <= a.ndim:
+                raise _NotRead("axis")
+            ax %= a.ndim + 1
+            return _getitem(a, (slice(None),) * ax + (None,))
+        if name == "where":
+            only(3)
+            if len(args) != 3:
+                raise _NotRead("where")
+            return _elementwise(lambda c, x, y: x if _const_of(c) != 0 else y, *args)
+        if name in ("power", "multiply", "add", "subtract", "divide", "true_divide"):
+            only(2)
+            if len(args) != 2:
+                raise _NotRead(name)
+            return self.binop(args[0], args[1], {"power": ast.Pow(), "multiply": ast.Mult(), "add": ast.Add(), "subtract": ast.Sub(), "divide": ast.Div(), "true_divide": ast.Div()}[name])
+        if name in ("minimum", "maximum", "logical_and", "logical_or"):
+            only(2)
+            if len(args) != 2:
+                raise _NotRead(name)
+            pick = {"minimum": min, "maximum": max, "logical_and": lambda x, y: int(bool(x) and bool(y)), "logical_or": lambda x, y: int(bool(x) or bool(y))}[name]
+            return _elementwise(lambda x, y: Poly.const(pick(_const_of(x), _const_of(y))), *args)
+        if name == "logical_not":
+            only(1)
+            return _elementwise(lambda x: Poly.const(0 if _const_of(x) != 0 else 1), args[0])
+        if name in ("builtins.reversed",):
+            only(1)
+            v = args[0]
+            if isinstance(v, (tuple, list)):
+                return tuple(v)[::-1]
+            if isinstance(v, _Arr) and v.ndim == 1:
+                return _flip(v, 0)
+            raise _NotRead("reversed")
+        if name in ("builtins.list", "builtins.tuple"):
+            only(1)
+            if len(args) == 1 and isinstance(args[0], (tuple, list, _Arr)):
+                return tuple(args[0]) if not isinstance(args[0], _Arr) else args[0]
+            raise _NotRead(name)
+        raise _NotRead(f"`{name}`")
+
+
+def _bounded_value(ev, q, what, node):
+    try:
+        return ev.ev(node.ast.value, node.id)
+    except _NotRead as e:
+        raise AnalysisError(f"{q}: {what} is written without a loop and was not evaluated for a concrete length: {e} (unrecognised form)")
+
+
+def _nstep_bounded(ck, repo, nf, q, fn, mi, PR, PD, PG):
+    """discounted_n_step_return without a loop over the horizon: evaluated for every horizon 1..4 and every termination pattern."""
+    from itertools import product
+    cfg = nf.cfg_of(fn)
+    rets = [n for n in cfg.nodes if n.kind == "stmt" and isinstance(n.ast, ast.Return) and n.ast.value is not None]
+    ck.need(len(rets) == 1, f"{q}: expected one return")
+    g = Poly.atom(PG, {PG}, {PG})
+    found = {}
+    for H in (1, 2, 3, 4):
+        for world in product((0, 1), repeat=H):
+            r = [Poly.atom(f"r{t}") for t in range(H)]
+            ev = _Bounded(repo, nf, fn, mi, q, {PR: _Arr((1, H), r, 0), PD: _Arr((1, H), [Poly.const(d) for d in world], 0), PG: g}, zero_ok={PG})
+            res = _bounded_value(ev, q, "the n-step return", rets[0])
+            if not (isinstance(res, tuple) and len(res) == 2 and all(isinstance(x, _Arr) and x.shape == (1,) and x.batch == 0 for x in res)):
+                raise AnalysisError(f"{q}: the result is not a pair of per-sample arrays for horizon {H} (unrecognised form)")
+            G, c = Poly.const(0), Poly.const(1)
+            for t in range(H):
+                G, c = G + c * r[t], c * g * Poly.const(1 - world[t])
+            for key, got, want in (("return", res[0].flat[0], G), ("discount", res[1].flat[0], c)):
+                if got != want:
+                    found.setdefault(key, (H, world, got, want))
+            if ev.singular:
+                found.setdefault("defined", (H, world, ev.singular[0][0], None))
+    if not found:
+        raise AnalysisError(f"{q}: written without a loop over the horizon; it agrees with the recurrence for every horizon up to 4 and every termination pattern, which is not a proof for all horizons (unrecognised form)")
+    _bounded_report(ck, "R2-n-step", q, found, {"return": "n-step return", "discount": "residual discount"}, "terminated", "horizon", PG, loc(mi, fn))
+
+
+def _bounded_report(ck, rule, q, found, names, flag_name, len_name, PG, where):
+    for key, (H, world, got, want) in sorted(found.items()):
+        at = f"{len_name} {H}" + (f", {flag_name} = {list(world)}" if world is not None else "")
+        if key == "defined":
+            ck.ob(rule, q, "bounded:defined-on-range", False, f"division by {got.canon()} ({at})", f"the value divides by `{got.canon()}`, which is 0 for {PG} = 0 - a discount factor the property quantifies over: the result is NaN / inf where the recurrence gives a finite value", where)
+        else:
+            ck.ob(rule, q, f"bounded:{key}", False, f"{names[key]} for {at}: {got.canon()[:120]}", f"the recurrence gives `{want.canon()[:120]}` for {at}; the code computes `{got.canon()[:120]}`", where,
+                  witness=[f"{at}: got {got.canon()[:150]}", f"{at}: documented {want.canon()[:150]}"])
+
+
+def _rtg_bounded(ck, repo, nf, q, fn, mi, RW, PG):
+    """discounted_reward_to_go without a loop: evaluated for every episode length 1..4.  True when it agrees with the recurrence there."""
+    cfg = nf.cfg_of(fn)
+    rets = [n for n in cfg.nodes if n.kind == "stmt" and isinstance(n.ast, ast.Return) and n.ast.value is not None]
+    ck.need(len(rets) == 1, f"{q}: expected one return")
+    g = Poly.atom(PG, {PG}, {PG})
+    found = {}
+    for L in (1, 2, 3, 4):
+        r = [Poly.atom(f"r{t}") for t in range(L)]
+        ev = _Bounded(repo, nf, fn, mi, q, {RW: tuple(r), PG: g}, zero_ok={PG})
+        res = _bounded_value(ev, q, "the reward-to-go", rets[0])
+        res = _as_arr(res) if isinstance(res, (tuple, list)) else res
+        if not (isinstance(res, _Arr) and res.shape == (L,) and res.batch is None):
+            raise AnalysisError(f"{q}: the result is not one value per step for an episode of length {L} (unrecognised form)")
+        acc, want = Poly.const(0), [None] * L
+        for t in reversed(range(L)):
+            acc = g * acc + r[t]
+            want[t] = acc
+        for t in range(L):
+            if res.flat[t] != want[t]:
+                found.setdefault("return", (L, None, res.flat[t], want[t]))
+        if ev.singular:
+            found.setdefault("defined", (L, None, ev.singular[0][0], None))
+    if found:
+        _bounded_report(ck, "R3-reward-to-go", q, found, {"return": "reward-to-go"}, "", "episode length", PG, loc(mi, fn))
+    return not found
+
+
 def _range_parts(nf, p: Poly):
     """(start, stop, step) of a `range(...)` value, else None."""
     f, m = _fn_of(nf, p)
@@ -269,6 +1245,8 @@ def r2_nstep(ck, repo, nf):
     ck.need(len(pp) >= 3, f"{q}: signature changed (anchor vanished)")
     PR, PD, PG = pp[:3]                   # rewards (B, H), terminations (B, H), discount factor: by position of the public signature
     loops = [n for n in fn.body if isinstance(n, (ast.For, ast.While))]
+    if not any(isinstance(n, (ast.For, ast.While, ast.AsyncFor)) for n in ast.walk(fn)):
+        return _nstep_bounded(ck, repo, nf, q, fn, mi, PR, PD, PG)
     ck.need(len(loops) == 1 and not loops[0].orelse, f"{q}: expected one loop over the horizon")
     lp = loops[0]
     where = loc(mi, lp)
@@ -296,6 +1274,7 @@ def r2_nstep(ck, repo, nf):
     env0 = dict(env)
     env0[G] = Poly.atom("G", {"G"}, {"G"})
     env0[C] = Poly.atom("c", {"c"}, {"c"})
+    env0.update(_loop_invariants(nf, cfg, mi, q, env, lp, hdr, skip=(G, C)))
     if counter_stop is not None:
         t = counter_stop[0]
         ck.need(t not in (G, C) and t not in env, f"{q}: loop counter `{t}` (unrecognised form)")
@@ -311,6 +1290,8 @@ def r2_nstep(ck, repo, nf):
     wantG = nf.poly(parse_expr(f"G + c * {PR}[:, {t}]"), ssc, None)
     wantC = nf.poly(parse_expr(f"c * {PG} * (1 - {PD}[:, {t}])"), ssc, None)
     both = wantG.atoms() | wantC.atoms()
+    for nm in (G, C):
+        pe.env[nm] = _index_distributed(nf, pe.env[nm], (PR, PD), (PG,))
     _decide(ck, "R2-n-step", q, "return-update", pe.env[G], wantG, f"G' = {pe.env[G].canon()[:120]}", f"expected G + c*r_t (with the discount *before* this step), difference `{(pe.env[G] - wantG).canon()[:120]}`", where, extra=(PG, PD), atoms=both)
     _decide(ck, "R2-n-step", q, "discount-update", pe.env[C], wantC, f"c' = {pe.env[C].canon()[:120]}", f"expected c*gamma*(1 - d_t), difference `{(pe.env[C] - wantC).canon()[:120]}`", where, extra=(PR,), atoms=both)
     # the loop runs t = 0 .. H-1: range(H), range(0, H), range(0, H, 1) with H the second axis of either (B, H) array
@@ -488,6 +1469,63 @@ def _rewards_grouping(nf, rw):
     return verdicts[0]
 
 
+_MIRROR = {ast.Lt: ast.Gt, ast.Gt: ast.Lt, ast.LtE: ast.GtE, ast.GtE: ast.LtE, ast.Eq: ast.Eq, ast.NotEq: ast.NotEq}
+_NEGATE = {ast.Lt: ast.GtE, ast.GtE: ast.Lt, ast.Gt: ast.LtE, ast.LtE: ast.Gt, ast.Eq: ast.NotEq, ast.NotEq: ast.Eq}
+_REL = {ast.Lt: "lt", ast.LtE: "le", ast.Gt: "gt", ast.GtE: "ge", ast.NotEq: "ne"}
+
+
+def _while_exit(q, lp):
+    """(counter, relation, bound expression): the loop goes on while `counter REL bound` holds at the top of an iteration.  Read are
+    `while counter REL bound:` without break / continue and `while True:` whose first statement is the only exit `if counter REL' bound: break`."""
+    jumps = [x for x in ast.walk(lp) if isinstance(x, (ast.Break, ast.Continue, ast.Return))]
+    if lp.orelse or any(isinstance(x, (ast.For, ast.While)) for x in ast.walk(lp) if x is not lp):
+        raise AnalysisError(f"{q}: loop `while {short(lp.test, 40)}` (unrecognised form)")
+    if isinstance(lp.test, ast.Constant) and lp.test.value in (True, 1):
+        first = lp.body[0]
+        if not (isinstance(first, ast.If) and not first.orelse and len(first.body) == 1 and isinstance(first.body[0], ast.Break) and jumps == [first.body[0]]):
+            raise AnalysisError(f"{q}: exits of the loop `while {short(lp.test, 40)}` (unrecognised form)")
+        cmp, negate = first.test, True
+    else:
+        if jumps:
+            raise AnalysisError(f"{q}: exits of the loop `while {short(lp.test, 40)}` (unrecognised form)")
+        cmp, negate = lp.test, False
+    if isinstance(cmp, ast.Name):
+        cmp = ast.copy_location(ast.Compare(left=cmp, ops=[ast.NotEq()], comparators=[ast.copy_location(ast.Constant(value=0), cmp)]), cmp)       # `while n:` on a counter is `while n != 0:`
+    if not (isinstance(cmp, ast.Compare) and len(cmp.ops) == 1 and type(cmp.ops[0]) in _MIRROR):
+        raise AnalysisError(f"{q}: loop condition `{short(cmp, 50)}` (unrecognised form)")
+    stored = {x.id for x in ast.walk(lp) if isinstance(x, ast.Name) and isinstance(x.ctx, (ast.Store, ast.Del))}
+    names = lambda e: {x.id for x in ast.walk(e) if isinstance(x, ast.Name)}
+    left, right, op = cmp.left, cmp.comparators[0], type(cmp.ops[0])
+    if isinstance(left, ast.Name) and left.id in stored and not (names(right) & stored):
+        counter, bound = left.id, right
+    elif isinstance(right, ast.Name) and right.id in stored and not (names(left) & stored):
+        counter, bound, op = right.id, left, _MIRROR[op]
+    else:
+        raise AnalysisError(f"{q}: loop condition `{short(cmp, 50)}` (unrecognised form)")
+    if negate:
+        op = _NEGATE[op]
+    if op not in _REL:
+        raise AnalysisError(f"{q}: loop condition `{short(cmp, 50)}` (unrecognised form)")
+    return counter, _REL[op], bound
+
+
+def _last_counter(rel, step, bound: Poly, start: Poly, length: Poly):
+    """The counter value at the top of the last iteration of `c = start; while c REL bound: ...; c += step` (step +-1), None when not read."""
+    one = Poly.const(1)
+    if step == -1 and rel in ("gt", "ge"):
+        return bound + one if rel == "gt" else bound
+    if step == 1 and rel in ("lt", "le"):
+        return bound - one if rel == "lt" else bound
+    if rel == "ne":
+        # the counter must reach the bound: it starts a non-negative number of steps away from it (a constant, or a length plus a constant)
+        gap = (start - bound) if step == -1 else (bound - start)
+        if not gap.is_const():
+            gap = gap - length
+        if gap.is_const() and gap.const_value() >= 0 and gap.const_value().denominator == 1:
+            return bound + one if step == -1 else bound - one
+    return None
+
+
 def r3_rtg(ck, repo, nf):
     q = "rl_blox.algorithm.reinforce.discounted_reward_to_go"
     fn = repo.func(q)
@@ -495,7 +1533,13 @@ def r3_rtg(ck, repo, nf):
     pp = positional_params(fn)
     ck.need(len(pp) >= 2, f"{q}: signature changed (anchor vanished)")
     RW, PG = pp[:2]                        # the rewards of one episode, the discount factor: by position of the public signature
-    loops = [n for n in fn.body if isinstance(n, ast.For)]
+    loops = [n for n in fn.body if isinstance(n, (ast.For, ast.While))]
+    if not any(isinstance(n, (ast.For, ast.While, ast.AsyncFor, ast.ListComp, ast.GeneratorExp)) for n in ast.walk(fn)):
+        agrees = _rtg_bounded(ck, repo, nf, q, fn, mi, RW, PG)
+        _r3_callers(ck, repo, nf, q, fn, RW)
+        if agrees:
+            raise AnalysisError(f"{q}: written without a loop; it agrees with the recurrence for every episode length up to 4, which is not a proof for all lengths (unrecognised form)")
+        return
     ck.need(len(loops) == 1, f"{q}: expected one loop (anchor / idiom changed)")
     lp = loops[0]
     where = loc(mi, lp)
@@ -503,8 +1547,12 @@ def r3_rtg(ck, repo, nf):
     cfg = nf.cfg_of(fn)
     hdr = cfg.stmt_node[id(lp)]
     inside = cfg.loop_body_nodes(hdr)
-    ck.need(isinstance(lp.target, ast.Name), f"{q}: loop variable not a name")
-    r = lp.target.id
+    if isinstance(lp, ast.For):
+        ck.need(isinstance(lp.target, ast.Name), f"{q}: loop variable not a name")
+        r, rel, bound = lp.target.id, None, None
+    else:
+        # a counting loop: the counter plays the part of the loop variable of `for t in range(...)`
+        r, rel, bound = _while_exit(q, lp)
     # the recorded list: the one list grown in the loop; the accumulator: the one variable the loop body both reads from the previous
     # iteration and rebinds (defined before the loop and in it)
     apps = [c for c in ast.walk(lp) if isinstance(c, ast.Call) and isinstance(c.func, ast.Attribute) and c.func.attr == "append" and isinstance(c.func.value, ast.Name)]
@@ -516,8 +1564,27 @@ def r3_rtg(ck, repo, nf):
     acc = carried[0]
     env0 = dict(env)
     env0[acc] = Poly.atom("acc", {"acc"}, {"acc"})
+    env0.update(_loop_invariants(nf, cfg, mi, q, env, lp, hdr, skip=(acc, r, lst)))
+    if rel is not None:
+        ck.need(r not in env, f"{q}: loop counter `{r}` (unrecognised form)")
+        env0[r] = Poly.atom(r, {r}, {r})
     pe = _loop_body_eval(nf, fn, mi, q, lp, env0)
-    want = nf.poly(parse_expr(f"{PG} * acc + {r}"), Scope(None, mi, {**env, "acc": env0[acc], r: pe.env[r]}, q), None)
+    # what one iteration works on: the loop variable itself when the loop runs over the rewards, else the one element `rewards[t + k]`
+    # (k a small constant) that the new accumulator reads, t being the loop variable / counter at the top of the iteration
+    t0 = env0[r] if rel is not None else pe.env[r]
+    itp = nf.poly(lp.iter, Scope(cfg, mi, env, q), hdr) if rel is None else None
+    ittxt = ast.unparse(lp.iter) if rel is None else f"counter `{r}` while {ast.unparse(lp.test)}"
+    o_ = _orientation(nf, itp, {RW}) if rel is None else None
+    if o_ is not None:
+        elem, offset = pe.env[r], None
+    else:
+        cands = [(k_, f"{RW}[{(t0 + Poly.const(k_)).canon()}]") for k_ in (-2, -1, 0, 1, 2)]
+        hits = [(k_, a_) for k_, a_ in cands if a_ in pe.env[acc].atoms()]
+        others = [a_ for a_ in pe.env[acc].atoms() if a_.startswith(RW + "[") and a_ not in {x_ for _, x_ in cands}]
+        if len(hits) != 1 or others:
+            raise AnalysisError(f"{q}: the reward read by one iteration in `{pe.env[acc].canon()[:80]}` (unrecognised form)")
+        offset, elem = hits[0][0], Poly.atom(hits[0][1])
+    want = nf.poly(parse_expr(f"{PG} * acc + elem__"), Scope(None, mi, {**env, "acc": env0[acc], "elem__": elem}, q), None)
     _decide(ck, "R3-reward-to-go", q, "recurrence", pe.env[acc], want, f"acc' = {pe.env[acc].canon()[:100]}", f"expected gamma*acc + r, difference `{(pe.env[acc] - want).canon()[:100]}`", where, atoms=())
     # the value recorded at each step: the argument of the append as the path evaluation saw it
     appended = [v for (nid, tgt, v) in pe.log if tgt == "<expr>" and (nf.meta.get(v.single_atom() or "", {}).get("fn") or "") == f"{lst}.append" and len(nf.meta[v.single_atom()].get("args", [])) == 1]
@@ -526,13 +1593,42 @@ def r3_rtg(ck, repo, nf):
     rec = nf.meta[appended[0].single_atom()]["args"][0]
     _decide(ck, "R3-reward-to-go", q, "records-updated-value", rec, want, f"{appended[0].canon()[:100]}", "each step must record the accumulator after adding that step's reward", where, atoms=())
     # direction of the iteration: an odd number of reversals between the rewards and what the loop runs over
-    itp = nf.poly(lp.iter, Scope(cfg, mi, env, q), hdr)
-    ittxt = ast.unparse(lp.iter)
-    o_ = _orientation(nf, itp, {RW})
-    if o_ is None:
-        raise AnalysisError(f"{q}: the loop iterates over `{itp.canon()[:50]}` (unrecognised form)")
-    ok = o_[0] == 1
-    ck.ob("R3-reward-to-go", q, "backward-iteration", ok, f"for {r} in {ittxt}", "" if ok else "the accumulation must run backwards over the rewards", where)
+    if o_ is not None:
+        ok = o_[0] == 1
+        ck.ob("R3-reward-to-go", q, "backward-iteration", ok, f"for {r} in {ittxt}", "" if ok else "the accumulation must run backwards over the rewards", where)
+    else:
+        # the indices visited: first, step, last (of a counting loop or a loop over a range, possibly reversed)
+        length = nf.poly(parse_expr(f"len({RW})"), Scope(None, mi, env, q), None)
+        sc_ = Scope(cfg, mi, env, q)
+        if rel is not None:
+            step = pe.env[r] - env0[r]
+            ds = [d for d in cfg.defs_of(hdr, r) if d.node not in inside and d.node != hdr]
+            if len(ds) != 1 or ds[0].kind != "assign" or not step.is_const() or step.const_value() not in (1, -1):
+                raise AnalysisError(f"{q}: the loop counter `{r}` (unrecognised form)")
+            step = int(step.const_value())
+            first = nf.poly(ds[0].value, sc_, ds[0].node)
+            last = _last_counter(rel, step, nf.poly(bound, sc_, hdr), first, length)
+        else:
+            ob_ = _orientation(nf, itp, lambda a_: _fn_of(nf, Poly.atom(a_))[0] == "range")
+            rg = _range_parts(nf, Poly.atom(ob_[1])) if ob_ is not None else None
+            if rg is None or not rg[2].is_const() or rg[2].const_value() not in (1, -1):
+                raise AnalysisError(f"{q}: the loop iterates over `{itp.canon()[:50]}` (unrecognised form)")
+            step = int(rg[2].const_value())
+            first, last = rg[0], rg[1] - Poly.const(step)
+            if ob_[0]:
+                first, last, step = last, first, -step
+        if last is None or any(_unread(x_) or x_.elems is not None for x_ in (first, last)):
+            raise AnalysisError(f"{q}: the range of the loop {ittxt} (unrecognised form)")
+        first, last = first + Poly.const(offset), last + Poly.const(offset)
+        top, zero = length - Poly.const(1), Poly.const(0)
+        hi, lo = (first, last) if step == -1 else (last, first)
+        shown = f"{ittxt}: {RW}[{first.canon()}], ..., {RW}[{last.canon()}] (step {step:+d})"
+        if not ((hi - top).is_const() and lo.is_const()):
+            raise AnalysisError(f"{q}: the range of the loop {shown} (unrecognised form)")
+        ok = step == -1
+        ck.ob("R3-reward-to-go", q, "backward-iteration", ok, shown, "" if ok else "the accumulation must run backwards over the rewards", where)
+        ok = hi == top and lo == zero
+        ck.ob("R3-reward-to-go", q, "covers-every-step", ok, shown, "" if ok else "the accumulation must visit every reward of the episode, from the last to the first", where)
     rets = [n for n in cfg.nodes if n.kind == "stmt" and isinstance(n.ast, ast.Return) and n.ast.value is not None]
     ck.need(len(rets) == 1, f"{q}: expected one return")
     txt = ast.unparse(rets[0].ast.value)
@@ -556,6 +1652,10 @@ def r3_rtg(ck, repo, nf):
         raise AnalysisError(f"{q}: initial value `{a0.canon()[:50]}` of the accumulator (unrecognised form)")
     ok = a0.const_value() == 0
     ck.ob("R3-reward-to-go", q, "initial-value", ok, f"{acc}0 = {ast.unparse(ds[0].value)}", "" if ok else "the accumulator must start at 0", loc(mi, fn))
+    _r3_callers(ck, repo, nf, q, fn, RW)
+
+
+def _r3_callers(ck, repo, nf, q, fn, RW):
     # every episode is processed separately by the caller
     cq = "rl_blox.algorithm.reinforce.EpisodeDataset.prepare_policy_gradient_dataset"
     m = repo.method("rl_blox.algorithm.reinforce.EpisodeDataset", "prepare_policy_gradient_dataset")
@@ -750,10 +1850,11 @@ def _vmapped_site(ck, repo, nf, qual, fn, mi, c, gfn, gps):
     outer_q = qual.split(".<locals>.")[0]
     ofn = repo.func(outer_q)
     ocfg = nf.cfg_of(ofn)
-    osc = Scope(ocfg, mi, _env(ofn), outer_q)
-    op = positional_params(ofn)
+    afn, anchor_q, oenv = _anchored(repo, nf, ofn, outer_q)       # the recorded routine this code belongs to, and what the parameters stand for
+    osc = Scope(ocfg, mi, oenv, outer_q)
+    op = positional_params(afn)
     if len(op) < 6:
-        raise AnalysisError(f"{outer_q}: signature changed (anchor vanished)")
+        raise AnalysisError(f"{anchor_q}: signature changed (anchor vanished)")
     RB, VF, LO, G_OUT, L_OUT = op[0], op[1], op[2], op[4], op[5]       # roles by position of the recorded signature
     # every use of the wrapper's name in the enclosing routine: mapped with vmap, called directly, or something else
     vmapped, direct, other = [], [], []
@@ -779,7 +1880,7 @@ def _vmapped_site(ck, repo, nf, qual, fn, mi, c, gfn, gps):
         if len(direct) != 1 or any(isinstance(a_, (ast.For, ast.While, ast.ListComp, ast.GeneratorExp, ast.Lambda, ast.DictComp, ast.SetComp)) for a_ in _ancestors(d0) if a_ is not ofn and ofn in _ancestors(a_)) \
                 or any(isinstance(y, ast.Subscript) for a_ in list(d0.args) + [k_.value for k_ in d0.keywords] for y in ast.walk(a_)):
             raise AnalysisError(f"{outer_q}: `{short(d0, 70)}` applies `{fn.name}` without vmap (unrecognised form)")
-    ck.ob("R4-per-trajectory", outer_q, "vmapped-per-environment", ok, f"{short(vmapped[0]) if vmapped else short(direct[0], 80)}", "" if ok else f"{fn.name} (which calls compute_gae) must be applied with jax.vmap over the environment axis", where)
+    ck.ob("R4-per-trajectory", anchor_q, "vmapped-per-environment", ok, f"{short(vmapped[0]) if vmapped else short(direct[0], 80)}", "" if ok else f"{fn.name} (which calls compute_gae) must be applied with jax.vmap over the environment axis", where)
     if not ok:
         return
     vm = vmapped[0]
@@ -816,7 +1917,7 @@ def _vmapped_site(ck, repo, nf, qual, fn, mi, c, gfn, gps):
     if rebound & set(fwd):
         raise AnalysisError(f"{outer_q}: `{fn.name}` rebinds its parameters before forwarding them (unrecognised form)")
     ok = len(set(fwd)) == 4
-    ck.ob("R4-per-trajectory", outer_q, "forwarding", ok, f"compute_gae({', '.join(f'{p_}={f_}' for p_, f_ in zip(gps[:4], fwd))})", "" if ok else "rewards, values, next values and terminations must each be forwarded to their own role (one sequence is used in two roles)", where)
+    ck.ob("R4-per-trajectory", anchor_q, "forwarding", ok, f"compute_gae({', '.join(f'{p_}={f_}' for p_, f_ in zip(gps[:4], fwd))})", "" if ok else "rewards, values, next values and terminations must each be forwarded to their own role (one sequence is used in two roles)", where)
     if not ok:
         return
     idx = [ip.index(f_) for f_ in fwd]
@@ -824,14 +1925,15 @@ def _vmapped_site(ck, repo, nf, qual, fn, mi, c, gfn, gps):
         raise AnalysisError(f"{outer_q}: `{short(app, 70)}` does not pass the four sequences (unrecognised form)")
     nfl = NF(repo, inline_depth=3)
     nfl.keep_layout = {"reshape"}              # reshapes are part of what is decided here
-    vals = [nfl.poly(app.args[i_], osc, n.id) for i_ in idx]          # rewards, values, next values, terminations as the GAE receives them
+    osc_l = Scope(ocfg, mi, _anchored(repo, nfl, ofn, outer_q)[2], outer_q)
+    vals = [nfl.poly(app.args[i_], osc_l, n.id) for i_ in idx]          # rewards, values, next values, terminations as the GAE receives them
     role_axes = [axes[i_] if isinstance(axes, list) else axes for i_ in idx]
     ok = role_axes == [1, 1, 1, 1]
     if not ok and any(t_ in v_.canon() for v_ in vals for t_ in _LAYOUT_OPS):
         raise AnalysisError(f"{outer_q}: in_axes={role_axes} on re-laid-out arrays `{short(app, 70)}` (unrecognised form)")
-    ck.ob("R4-per-trajectory", outer_q, "vmap-axis", ok, f"in_axes={tuple(role_axes)}", "" if ok else "all four arguments must be mapped over axis 1 (the environment axis of (T, N) arrays)", loc(mi, vm))
+    ck.ob("R4-per-trajectory", anchor_q, "vmap-axis", ok, f"in_axes={tuple(role_axes)}", "" if ok else "all four arguments must be mapped over axis 1 (the environment axis of (T, N) arrays)", loc(mi, vm))
     # gamma / lambda of the routine, in their roles
-    isc = Scope(nf.cfg_of(fn), mi, {**_env(fn), **{k_: v_ for k_, v_ in closure_env(nf, ofn, fn, mi, _env(ofn), outer_q).items() if k_ not in ip}, **{k_: v_ for k_, v_ in _env(ofn).items() if k_ not in ip and k_ not in rebound}}, qual)
+    isc = Scope(nf.cfg_of(fn), mi, {**_env(fn), **{k_: v_ for k_, v_ in closure_env(nf, ofn, fn, mi, oenv, outer_q).items() if k_ not in ip}, **{k_: v_ for k_, v_ in oenv.items() if k_ not in ip and k_ not in rebound}}, qual)
     g_e = [bnd.get(p_) for p_ in gps[4:6]]
     if any(x_ is None for x_ in g_e):
         raise AnalysisError(f"{outer_q}: `{short(c, 70)}` does not pass gamma / lambda (unrecognised form)")
@@ -842,7 +1944,7 @@ def _vmapped_site(ck, repo, nf, qual, fn, mi, c, gfn, gps):
     ok = g == [G_OUT, L_OUT]
     if not ok and not set(g) <= {G_OUT, L_OUT}:
         raise AnalysisError(f"{outer_q}: `{short(c, 70)}` passes gamma <- {g[0][:30]}, lambda <- {g[1][:30]} (unrecognised form)")
-    ck.ob("R4-per-trajectory", outer_q, "gamma-lambda", ok, f"gamma <- {g[0]}, lmbda <- {g[1]}", "" if ok else "gamma and lambda must be passed in their roles (not swapped, not the same value twice)", where)
+    ck.ob("R4-per-trajectory", anchor_q, "gamma-lambda", ok, f"gamma <- {g[0]}, lmbda <- {g[1]}", "" if ok else "gamma and lambda must be passed in their roles (not swapped, not the same value twice)", where)
     # what each role receives: the buffer's rewards / terminations, the critic's values as (T, N), the values shifted by one step
     kinds = []
     for v_ in vals:
@@ -855,18 +1957,60 @@ def _vmapped_site(ck, repo, nf, qual, fn, mi, c, gfn, gps):
     ok = kinds[0] == "buffer:rewards" and kinds[3] == "buffer:terminations"
     if not ok and (kinds[0] is None or kinds[3] is None):
         raise AnalysisError(f"{outer_q}: rewards <- `{vals[0].canon()[:60]}`, terminations <- `{vals[3].canon()[:60]}` passed to the per-environment GAE (unrecognised form)")
-    ck.ob("R4-per-trajectory", outer_q, "reward-termination-roles", ok, f"rewards <- {vals[0].canon()[:50]}, terminations <- {vals[3].canon()[:50]}",
+    ck.ob("R4-per-trajectory", anchor_q, "reward-termination-roles", ok, f"rewards <- {vals[0].canon()[:50]}, terminations <- {vals[3].canon()[:50]}",
           "" if ok else "the vmapped GAE must receive the buffer's rewards and terminations", loc(mi, app))
     # values un-merged to (T, N) and successor values = values shifted by one step + bootstrap of the last observation
     ok = kinds[1] == "values:ok"
     if not ok and kinds[1] is None:
         raise AnalysisError(f"{outer_q}: values passed to the per-environment GAE `{vals[1].canon()[:100]}` (unrecognised form)")
-    ck.ob("R4-per-trajectory", outer_q, "values-unmerged", ok, f"values = {vals[1].canon()[:110]}", "" if ok else "values computed on the flattened batch must be reshaped back to (T, N) before the per-environment GAE", loc(mi, app))
+    ck.ob("R4-per-trajectory", anchor_q, "values-unmerged", ok, f"values = {vals[1].canon()[:110]}", "" if ok else "values computed on the flattened batch must be reshaped back to (T, N) before the per-environment GAE", loc(mi, app))
     sh = _shifted_kind(nfl, vals[2], vals[1] if ok else None, VF, LO)
     if sh is None and (kinds[2] is None or kinds[2] == "shifted"):
         raise AnalysisError(f"{outer_q}: successor values passed to the per-environment GAE `{vals[2].canon()[:100]}` (unrecognised form)")
     ok = sh is True
-    ck.ob("R4-per-trajectory", outer_q, "successor-values-shifted", ok, f"next_values = {vals[2].canon()[:150]}", "" if ok else "successor values must be values[1:] followed by the bootstrap value of the last observation along time", loc(mi, app))
+    ck.ob("R4-per-trajectory", anchor_q, "successor-values-shifted", ok, f"next_values = {vals[2].canon()[:150]}", "" if ok else "successor values must be values[1:] followed by the bootstrap value of the last observation along time", loc(mi, app))
+
+
+def _anchored(repo, nf, fn, qual, depth=0):
+    """(recorded routine, its qualified name, values of the parameters of ``fn``).  A routine of the recorded surface is its own anchor and
+    its parameters are themselves.  A helper introduced later (not part of the recorded surface) that could not be expanded in place - it
+    holds a nested definition - is read where it stands: its parameters are bound, by its signature, to what its one call site passes,
+    evaluated in the caller (transitively up to a recorded routine).  The analysis then sees the same values as before the extraction."""
+    from ..expand import load_known
+    if qual in load_known() or depth > 3:
+        return fn, qual, _env(fn)
+    sites = []
+    for cq, cfn, cmi in repo.all_functions():
+        if cfn is fn or any(a_ is fn for a_ in _ancestors(cfn)):
+            continue
+        for c in ast.walk(cfn):
+            if isinstance(c, ast.Call) and isinstance(c.func, (ast.Name, ast.Attribute)) and repo.resolve_expr(cmi, c.func) == qual:
+                p_ = next((a_ for a_ in _ancestors(c) if isinstance(a_, (ast.FunctionDef, ast.AsyncFunctionDef, ast.Lambda))), None)
+                if p_ is cfn:
+                    sites.append((cq, cfn, cmi, c))
+    if len(sites) != 1:
+        raise AnalysisError(f"{qual}: a helper outside the recorded surface with {len(sites)} call sites (unrecognised form)")
+    cq, cfn, cmi, c = sites[0]
+    if any(isinstance(a_, ast.Starred) for a_ in c.args) or any(k_.arg is None for k_ in c.keywords) or fn.args.vararg or fn.args.kwarg or fn.decorator_list \
+            or positional_params(fn)[:1] in (["self"], ["cls"]) or "<locals>" in qual:
+        raise AnalysisError(f"{cq}: `{short(c, 70)}` passes packed arguments (unrecognised form)")
+    afn, aq, cenv = _anchored(repo, nf, cfn, cq, depth + 1)
+    ccfg = nf.cfg_of(cfn)
+    csc = Scope(ccfg, cmi, cenv, cq)
+    at = ccfg.node_of(c).id
+    bnd = bind_call(fn, c)
+    pos = fn.args.posonlyargs + fn.args.args
+    defaults = dict(zip([a_.arg for a_ in pos][len(pos) - len(fn.args.defaults):], fn.args.defaults))
+    defaults.update({a_.arg: d_ for a_, d_ in zip(fn.args.kwonlyargs, fn.args.kw_defaults) if d_ is not None})
+    env = {}
+    for p_ in param_names(fn):
+        if p_ in bnd and not isinstance(bnd[p_], list):
+            env[p_] = nf.poly(bnd[p_], csc, at)
+        elif p_ in defaults:
+            env[p_] = nf.poly(defaults[p_], Scope(None, fn._module, {}, qual), None)
+        else:
+            raise AnalysisError(f"{cq}: `{short(c, 70)}` does not pass `{p_}` (unrecognised form)")
+    return afn, aq, env
 
 
 def _ancestors(x):
@@ -937,6 +2081,118 @@ def _has_product(nf, p: Poly, a1: str, a2: str, depth: int = 0) -> bool:
     return False
 
 
+def _rollout_holder(repo, nf, fn, q):
+    """The routine that holds the nested roll-out of the encoder loss: the recorded routine itself, or the one later helper it calls that
+    could not be expanded in place because it holds the nested definition; with the values its parameters stand for (see _anchored)."""
+    if any(isinstance(n, ast.FunctionDef) and n is not fn for n in ast.walk(fn)):
+        return fn, q, _env(fn)
+    holders = []
+    for caller, helper in getattr(repo, "expand_failed", []):
+        if caller == q and helper not in [h_ for h_, _ in holders] and repo.has(helper):
+            h = repo.func(helper)
+            if any(isinstance(n, ast.FunctionDef) and n is not h for n in ast.walk(h)):
+                holders.append((helper, h))
+    if len(holders) != 1:
+        raise AnalysisError(f"{q}: roll-out body not found (anchor vanished)")
+    hq, hfn = holders[0]
+    for _q, f_, m_ in repo.all_functions():
+        if f_ is hfn:
+            hfn._module = m_
+    _a, aq, henv = _anchored(repo, nf, hfn, hq)
+    if aq != q:
+        raise AnalysisError(f"{q}: roll-out body not found (anchor vanished)")
+    return hfn, hq, henv
+
+
+def _mentions(nf, p: Poly, atom: str, depth: int = 0) -> bool:
+    """``atom`` occurs in ``p`` at any call depth."""
+    if p is None or depth > 8:
+        return False
+    if any(_mentions(nf, x, atom, depth + 1) for x in (p.elems or [])):
+        return True
+    for a in p.atoms():
+        if a == atom:
+            return True
+        m = nf.meta.get(a, {})
+        if any(_mentions(nf, x, atom, depth + 1) for x in list(m.get("args", [])) + list(m.get("kws", {}).values())):
+            return True
+    return False
+
+
+def _r5_hoisted_mask(ck, repo, nf, nf2, q, fn, hfn, hq, henv, body, bp, sc, rp, BT, mq, where):
+    """The roll-out with the termination mask computed before the scan for all steps (`mask[:, t]` inside the body): every term must be
+    weighted by the mask of its step, and the mask array - evaluated for every horizon 1..4 and every termination pattern - must be the
+    running product of the not-terminated flags of all earlier steps."""
+    from itertools import product
+    mi = hfn._module
+    # the mask of a step is what masked_mse_loss receives as its mask (role by the signature of masked_mse_loss): `M[:, t]` with M and t
+    # parameters of the body
+    import re
+    mfn = repo.func(mq)
+    mps = positional_params(mfn)
+    masks = []
+    for c in ast.walk(body):
+        if isinstance(c, ast.Call) and isinstance(c.func, (ast.Name, ast.Attribute)) and repo.resolve_expr(mi, c.func) == mq:
+            b = bind_call(mfn, c)
+            if len(mps) < 3 or mps[2] not in b or any(isinstance(a_, ast.Starred) for a_ in c.args) or any(k_.arg is None for k_ in c.keywords):
+                raise AnalysisError(f"{q}: `{short(c, 70)}` (unrecognised form)")
+            masks.append((c, b, nf2.poly(b[mps[2]], sc, sc.cfg.node_of(c).id)))
+    forms = {mp.canon() for _c, _b, mp in masks}
+    mm = re.fullmatch(r"(\w+)\[:, (\w+)\]", next(iter(forms))) if len(forms) == 1 else None
+    if mm is None or mm.group(1) not in bp[1:] or mm.group(2) not in bp[1:] or mm.group(1) == mm.group(2):
+        raise AnalysisError(f"{q}: the masks {sorted(forms)} passed to masked_mse_loss in a roll-out that does not carry the mask (unrecognised form)")
+    ND, TT = mm.group(1), mm.group(2)
+    m_atom = f"{ND}[:, {TT}]"
+    for nm, term in zip(["dynamics", "reward", "done", "reward_mse"], rp.elems[1:]):
+        uses = _mentions(nf2, term, m_atom)
+        if not uses and (ND in term.deps or _unread(term)):
+            raise AnalysisError(f"{q}: loss term {nm} = `{term.canon()[:100]}` (unrecognised form)")
+        ck.ob("R5-post-terminal-mask", q, f"term-masked:{nm}", uses, f"{nm} = {term.canon()[:130]}", "" if uses else "the term is not weighted by the termination mask: steps after a terminated step still contribute", where)
+    for c, b, mp in masks:
+        ck.ob("R5-post-terminal-mask", q, f"mask-arg:{short(b.get(mps[0]), 30) if b.get(mps[0]) is not None else '?'}", True, f"mask <- {mp.canon()}", "", loc(mi, c))
+    # the mask array handed to the roll-out
+    ocfg = nf.cfg_of(hfn)
+    apps = [(n, c) for n in ocfg.nodes if n.ast is not None and n.kind == "stmt" for c in ast.walk(n.ast) if isinstance(c, ast.Call) and dotted(c.func) == body.name]
+    ck.need(len(apps) == 1, f"{q}: roll-out call not found")
+    n, app = apps[0]
+    if any(isinstance(a_, ast.Starred) for a_ in app.args) or any(k_.arg is None for k_ in app.keywords):
+        raise AnalysisError(f"{q}: `{short(app, 70)}` passes packed arguments (unrecognised form)")
+    ab = bind_call(body, app)
+    if ND not in ab or TT not in ab:
+        raise AnalysisError(f"{q}: `{short(app, 70)}` does not pass the mask / the steps (unrecognised form)")
+    osc = Scope(ocfg, mi, henv, hq)
+    steps = nf.poly(ab[TT], osc, n.id)
+    fs, ms = _fn_of(nf, steps)
+    if fs != "arange" or len(ms.get("args", [])) != 1 or (set(ms.get("kws", {})) - {"dtype"}):
+        raise AnalysisError(f"{q}: the roll-out runs over `{steps.canon()[:60]}` (unrecognised form)")
+    holders = [p_ for p_, v_ in henv.items() if v_.canon() == BT]
+    if len(holders) != 1:
+        raise AnalysisError(f"{q}: the sampled batch inside `{hq}` (unrecognised form)")
+    found = None
+    for H in (1, 2, 3, 4):
+        for world in product((0, 1), repeat=H):
+            ev = _Bounded(repo, nf, hfn, mi, hq, {f"{holders[0]}.terminated": _Arr((1, H), [Poly.const(d) for d in world], 0)})
+            try:
+                got = ev.ev(ab[ND], n.id)
+            except _NotRead as e:
+                raise AnalysisError(f"{q}: the mask `{short(ab[ND], 50)}` handed to the roll-out was not evaluated for a concrete horizon: {e} (unrecognised form)")
+            if not (isinstance(got, _Arr) and got.shape == (1, H) and got.batch == 0):
+                raise AnalysisError(f"{q}: the mask `{short(ab[ND], 50)}` handed to the roll-out is not one value per sample and step (unrecognised form)")
+            alive = 1
+            for t in range(H):
+                if found is None and got.flat[t] != Poly.const(alive):
+                    found = (H, world, t, got.flat[t], alive)
+                alive *= 1 - world[t]
+    if found is None:
+        raise AnalysisError(f"{q}: the termination mask is computed before the roll-out; it is the running product of the earlier not-terminated flags for every horizon up to 4 and every "
+                            "termination pattern, which is not a proof for all horizons (unrecognised form)")
+    H, world, t, got, want = found
+    ck.ob("R5-post-terminal-mask", q, "mask-update", False, f"mask = {short(ab[ND], 60)}: step {t} of horizon {H}, terminated = {list(world)}: {got.canon()}",
+          f"with terminated = {list(world)} the mask of step {t} is {got.canon()} but " + ("a step before it has terminated the sub-trajectory: it must be 0 (cumulative: nothing after the first terminated step counts)" if want == 0 else
+                                                                                           "no earlier step has terminated: it must be 1 (the terminated step itself still counts; the mask is the product over the steps before it)"), loc(mi, app),
+          witness=[f"horizon {H}, terminated = {list(world)}: mask[{t}] = {got.canon()}, documented {want}"])
+
+
 def r5_encoder(ck, repo, nf):
     q = "rl_blox.blox.embedding.model_based_encoder.model_based_encoder_loss"
     fn = repo.func(q)
@@ -944,7 +2200,9 @@ def r5_encoder(ck, repo, nf):
     op = positional_params(fn)
     ck.need(len(op) >= 8, f"{q}: signature changed (anchor vanished)")
     ENC, ENC_T, BT, WEIGHTS = op[0], op[1], op[3], op[5:8]           # roles by position of the recorded signature
-    body = next((n for n in ast.walk(fn) if isinstance(n, ast.FunctionDef) and n is not fn), None)
+    hfn, hq, henv = _rollout_holder(repo, nf, fn, q)
+    mi = hfn._module
+    body = next((n for n in ast.walk(hfn) if isinstance(n, ast.FunctionDef) and n is not hfn), None)
     ck.need(body is not None, f"{q}: roll-out body not found (anchor vanished)")
     body._module = mi
     where = loc(mi, body)
@@ -961,6 +2219,9 @@ def r5_encoder(ck, repo, nf):
     shape_msg = f"{q}: roll-out body must return ((zs, mask), dyn, rew, done, rew_mse)"
     ck.need(rp.elems is not None and len(rp.elems) in (2, 5), shape_msg)
     carry_c, carry_f = _components(nf2, rp.elems[0])
+    if carry_c is None and len(rp.elems) == 5 and not _unread(rp.elems[0]):
+        # the carry is the latent state alone: the mask is not threaded through the scan but handed in for all steps at once
+        return _r5_hoisted_mask(ck, repo, nf, nf2, q, fn, hfn, hq, henv, body, bp, sc, rp, BT, mq, where)
     ck.need(carry_c is not None and len(carry_c) == 2, shape_msg)
     if carry_f is not None:
         # the carry is a record (NamedTuple): reading a field of the carried-in record is reading that component (same leaf as carry[i])
@@ -1010,8 +2271,8 @@ def r5_encoder(ck, repo, nf):
                 raise AnalysisError(f"{q}: mask `{m[:80]}` passed to masked_mse_loss (unrecognised form)")
             ck.ob("R5-post-terminal-mask", q, f"mask-arg:{short(b.get(mps[0]), 30) if b.get(mps[0]) is not None else '?'}", ok, f"mask <- {m}", "" if ok else "masked_mse_loss must receive the carried-in termination mask", loc(mi, c))
     # the initial mask is all ones and the initial latent state is the encoding of the first observation
-    ocfg = nf.cfg_of(fn)
-    osc = Scope(ocfg, mi, _env(fn), q)
+    ocfg = nf.cfg_of(hfn)
+    osc = Scope(ocfg, mi, henv, hq)
     apps = [(n, c) for n in ocfg.nodes if n.ast is not None and n.kind == "stmt" for c in ast.walk(n.ast) if isinstance(c, ast.Call) and dotted(c.func) == body.name]
     ck.need(len(apps) == 1, f"{q}: roll-out call not found")
     n, app = apps[0]
@@ -1051,6 +2312,25 @@ def r5_encoder(ck, repo, nf):
     # total = w_dyn * sum(dyn) + w_rew * sum(rew) + w_done * sum(done): every monomial is one weight times the summed roll-out output of its
     # position (outputs 1, 2, 3 of the roll-out)
     pairs, readable = [], True          # (the roll-out's own arguments inside the summed atoms are not part of this reading)
+    hparts = None
+    if hfn is not fn:
+        # the roll-out is called by a later helper: a component of the helper's result (by field or position) is the value the helper returns there
+        hrets = [n_ for n_ in ocfg.nodes if n_.kind == "stmt" and isinstance(n_.ast, ast.Return) and n_.ast.value is not None]
+        if len(hrets) == 1:
+            hparts = _components(nf, nf.poly(hrets[0].ast.value, osc, hrets[0].id))
+
+    def through_holder(a_):
+        m_ = nf.meta.get(a_ or "", {})
+        base = m_["args"][0] if m_.get("fn") in ("attr", "proj") and m_.get("args") else None
+        if hparts is None or hparts[0] is None or base is None or nf.meta.get(base.single_atom() or "", {}).get("fn") != hq:
+            return a_
+        sel = a_[len(base.canon()):]
+        comps, names_ = hparts
+        if names_ is not None and sel.startswith(".") and sel[1:] in names_:
+            return comps[names_.index(sel[1:])].single_atom()
+        if re.fullmatch(r"\[\d\]", sel) and int(sel[1:-1]) < len(comps):
+            return comps[int(sel[1:-1])].single_atom()
+        return a_
     for mono, coef in t0.terms.items():
         ws = [(a, k) for a, k in mono if a in WEIGHTS]
         rest = [(a, k) for a, k in mono if a not in WEIGHTS]
@@ -1058,8 +2338,13 @@ def r5_encoder(ck, repo, nf):
         if len(rest) == 1 and rest[0][1] == 1:
             fr, mr = _fn_of(nf, Poly.atom(rest[0][0]))
             src = mr["args"][0].single_atom() if fr == "sum" and len(mr.get("args", [])) == 1 and not mr.get("kws") else None
+            src = through_holder(src) if hfn is not fn else src
             if src is not None and f".<locals>.{body.name}(" in src:
                 mm = re.search(r"\)\[(\d)\]$", src) if out_fields is None and len(rp.elems) == 5 else None
+                ms = re.search(r"\)\[\('\*', (\d)\)\]\[(\d)\]$", src) if out_fields is None and len(rp.elems) == 5 else None
+                if ms and int(ms.group(1)) + int(ms.group(2)) < 10:
+                    # `a, *rest = roll_out(...)`: rest[k] is the result's component i + k (i: position of the starred target)
+                    mm = re.search(r"(\d)$", str(int(ms.group(1)) + int(ms.group(2))))
                 mn = re.search(r"\)\[1\]\[(\d)\]$", src) if len(rp.elems) == 2 else None
                 mf = re.search(r"\)\[1\]\.(\w+)$", src) if out_fields is not None else None
                 out_k = int(mm.group(1)) if mm else (int(mn.group(1)) + 1 if mn else (out_fields.index(mf.group(1)) + 1 if mf and mf.group(1) in out_fields else None))
@@ -1069,7 +2354,8 @@ def r5_encoder(ck, repo, nf):
     ok = readable and len(pairs) == 3 and all(coef == 1 and len(ws) == 1 and ws[0][1] == 1 and out_k == WEIGHTS.index(ws[0][0]) + 1 for coef, ws, out_k in pairs) and len({ws[0][0] for _, ws, _ in pairs}) == 3
     if not ok and not readable:
         raise AnalysisError(f"{q}: total loss `{t0.canon()[:100]}` (unrecognised form)")
-    ck.ob("R5-post-terminal-mask", q, "weighted-sum", ok, f"total = {t0.canon()[:150]}", "" if ok else "total loss must be w_dyn*sum(dyn) + w_rew*sum(rew) + w_done*sum(done)", where)
+    shown = " + ".join(f"{'' if coef == 1 else str(coef) + '*'}{'*'.join(a_ if k_ == 1 else f'{a_}^{k_}' for a_, k_ in ws) or '1'}*sum(roll-out output {out_k})" for coef, ws, out_k in pairs) if readable else t0.canon()[:150]
+    ck.ob("R5-post-terminal-mask", q, "weighted-sum", ok, f"total = {shown}", "" if ok else "total loss must be w_dyn*sum(dyn) + w_rew*sum(rew) + w_done*sum(done)", where)
 
 
 def r5_shapes(ck, repo, nf):
@@ -1080,14 +2366,42 @@ def r5_shapes(ck, repo, nf):
     op = positional_params(fn)
     ck.need(len(op) >= 4, f"{q}: signature changed (anchor vanished)")
     ENC, ENC_T, BINS, BT = op[:4]          # roles by position of the recorded signature
-    se = ShapeEngine(repo)
+    class _Engine(ShapeEngine):
+        """Keeps the variable shapes of the outermost routine (they are what a later helper holding the roll-out receives)."""
+        top = None
+
+        def block(self, stmts, env, ctx):
+            if self.top is None:
+                self.top = (env, ctx)
+            return super().block(stmts, env, ctx)
+    se = _Engine(repo)
     H = "$encoder_horizon"
-    senv = {f"{BT}.observation": ("B", H, "O"), f"{BT}.action": ("B", H, "A"), f"{BT}.reward": ("B", H), f"{BT}.next_observation": ("B", H, "O"), f"{BT}.terminated": ("B", H),
-            f"{BT}.truncated": ("B", H), BINS: ("K",)}
+    fields = {"observation": ("B", H, "O"), "action": ("B", H, "A"), "reward": ("B", H), "next_observation": ("B", H, "O"), "terminated": ("B", H), "truncated": ("B", H)}
+    senv = {**{f"{BT}.{k_}": v_ for k_, v_ in fields.items()}, BINS: ("K",)}
     se.module_out = {f"{ENC}.encode_zs": "Z", f"{ENC_T}.encode_zs": "Z", f"{ENC_T}.zs": "Z"}
     se.analyse(fn, mi, q, senv)
-    nested = {x.name for x in ast.walk(fn) if isinstance(x, ast.FunctionDef) and x is not fn}
-    if se.alarms and any(isinstance(x, ast.Call) and isinstance(x.func, ast.Name) and x.func.id in nested and x.keywords for x in ast.walk(fn)):
+    hfn, hq, _henv = _rollout_holder(repo, nf, fn, q)
+    if hfn is not fn:
+        # the roll-out lives in a later helper: it is typed with the shapes of the arguments at its call; the batch and the encoders
+        # keep their field / method shapes under the helper's own parameter names
+        call = next(c for c in ast.walk(fn) if isinstance(c, ast.Call) and isinstance(c.func, (ast.Name, ast.Attribute)) and repo.resolve_expr(mi, c.func) == hq)
+        env_, ctx_ = se.top
+        harg = {}
+        for p_, a_ in bind_call(hfn, call).items():
+            if isinstance(a_, list):
+                continue
+            harg[p_] = se.ev(a_, env_, ctx_)
+            if isinstance(a_, ast.Name) and a_.id == BT:
+                harg.update({f"{p_}.{k_}": v_ for k_, v_ in fields.items()})
+            for role, outs in ((ENC, ("encode_zs",)), (ENC_T, ("encode_zs", "zs"))):
+                if isinstance(a_, ast.Name) and a_.id == role:
+                    se.module_out.update({f"{p_}.{k_}": "Z" for k_ in outs})
+        n_before = len(se.trace)
+        se.analyse(hfn, hfn._module, hq, harg)
+        if len(se.trace) - n_before < 8:
+            raise AnalysisError(f"{hq}: the shapes of the roll-out were not inferred (unrecognised form)")
+    nested = {x.name for x in ast.walk(hfn) if isinstance(x, ast.FunctionDef) and x is not hfn}
+    if se.alarms and any(isinstance(x, ast.Call) and isinstance(x.func, ast.Name) and x.func.id in nested and x.keywords for x in ast.walk(hfn)):
         # the shape engine binds the arguments of the scanned roll-out by position only
         raise AnalysisError(f"{q}: the roll-out is called with keyword arguments (unrecognised form)")
     _shape_obligations(ck, se, "R5-post-terminal-mask", q, mi, fn, f"symbolic shapes with batch fields (B,{H},..), bins (K,)")
@@ -1149,7 +2463,43 @@ def r6_env_index(ck, repo, nf):
     ck.ob("R6-env-index", q, "sites", True, f"{n_sites} per-environment write(s)", "", loc(mi, fn))
 
 
+def _unroll_sized_unpacks(fn: ast.FunctionDef) -> bool:
+    """`a, b, c = (f(x) for x in rest)` with `rest` the starred target of one unpacking (`head, *rest = value`): the unpacking into three
+    names takes exactly three items, so it is `a, b, c = (f(rest[0]), f(rest[1]), f(rest[2]))` (the same reading the helper expander
+    gives to a comprehension over a literal tuple).  Rewritten in the parsed tree of this run only."""
+    from ..expand import clone, _Rename
+    stores = {}
+    for n in ast.walk(fn):
+        if isinstance(n, ast.Name) and isinstance(n.ctx, (ast.Store, ast.Del)):
+            stores[n.id] = stores.get(n.id, 0) + 1
+    starred = {n.value.id for n in ast.walk(fn) if isinstance(n, ast.Starred) and isinstance(n.ctx, ast.Store) and isinstance(n.value, ast.Name)}
+    changed = False
+    for n in ast.walk(fn):
+        if not (isinstance(n, ast.Assign) and len(n.targets) == 1 and isinstance(n.targets[0], (ast.Tuple, ast.List)) and all(isinstance(x, ast.Name) for x in n.targets[0].elts)):
+            continue
+        v = n.value
+        if not (isinstance(v, (ast.GeneratorExp, ast.ListComp)) and len(v.generators) == 1):
+            continue
+        g = v.generators[0]
+        if g.ifs or g.is_async or not isinstance(g.target, ast.Name) or not isinstance(g.iter, ast.Name) or g.iter.id not in starred or stores.get(g.iter.id) != 1:
+            continue
+        if any(isinstance(x, (ast.Lambda, ast.GeneratorExp, ast.ListComp, ast.SetComp, ast.DictComp, ast.NamedExpr)) for x in ast.walk(v.elt)):
+            continue
+        elts = [_Rename({g.target.id: ast.Subscript(value=ast.Name(id=g.iter.id, ctx=ast.Load()), slice=ast.Constant(value=k_), ctx=ast.Load())}).visit(clone(v.elt)) for k_ in range(len(n.targets[0].elts))]
+        n.value = ast.copy_location(ast.Tuple(elts=elts, ctx=ast.Load()), v)
+        changed = True
+    if changed:
+        ast.fix_missing_locations(fn)
+        for parent in ast.walk(fn):
+            for child in ast.iter_child_nodes(parent):
+                child._parent = parent
+    return changed
+
+
 def run(ck, repo: Repo, tier: str):
+    for q_ in ("rl_blox.blox.embedding.model_based_encoder.model_based_encoder_loss",):
+        if repo.has(q_):
+            _unroll_sized_unpacks(repo.func(q_))
     nf = NF(repo, inline_depth=3)
     for group in (r1_gae, r2_nstep, r3_rtg, r4_callsites, r5_shapes, r5_encoder, r6_env_index, r2_call_roles):
         ck.guard(group, ck, repo, nf)
@@ -1192,6 +2542,8 @@ def r2_call_roles(ck, repo, nf):
 
 
 _G, _R, _RE, _E, _A2, _P, _M = "rl_blox/blox/gae.py", "rl_blox/blox/return_estimates.py", "rl_blox/algorithm/reinforce.py", "rl_blox/blox/embedding/model_based_encoder.py", "rl_blox/algorithm/a2c.py", "rl_blox/algorithm/ppo.py", "rl_blox/algorithm/mrq.py"
+_NSTEP_LOOP = '    n_step_return = jnp.zeros(reward.shape[0], dtype=jnp.float32)\n    discount = jnp.ones(reward.shape[0], dtype=jnp.float32)\n    for t in range(reward.shape[1]):\n        n_step_return += discount * reward[:, t]\n        discount *= gamma * (1 - terminated[:, t])\n    return n_step_return, discount'
+_RTG_LOOP = '    discounted_returns = []\n    accumulated_return = 0.0\n    for r in reversed(rewards):\n        accumulated_return *= gamma\n        accumulated_return += r\n        discounted_returns.append(accumulated_return)\n    return np.array(list(reversed(discounted_returns)))'
 MUTANTS = [
     {"id": "c07-gae-no-cut", "file": _G, "rule": "R1", "find": "        gae = delta + gamma * lmbda * (1 - terminated) * gae", "replace": "        gae = delta + gamma * lmbda * gae"},
     {"id": "c07-gae-delta-no-mask", "file": _G, "rule": "R1", "find": "        delta = reward + gamma * next_value * (1 - terminated) - value", "replace": "        delta = reward + gamma * next_value - value"},
@@ -1235,6 +2587,55 @@ MUTANTS = [
     {"id": "c07-ppo-filtered-index", "file": _P, "rule": "R6", "edits": [
         ("                (i, r, l, o)\n                for i, (r, l, o, f) in enumerate(\n                    zip(\n                        info[\"episode\"][\"r\"],\n                        info[\"episode\"][\"l\"],\n                        info[\"final_obs\"],\n                        info[\"_episode\"],\n                        strict=True,\n                    )\n                )\n                if f\n            ]\n            for i, r, l, o in finished_reward_len_obs:",
          "                (r, l, o)\n                for r, l, o, f in zip(\n                    info[\"episode\"][\"r\"],\n                    info[\"episode\"][\"l\"],\n                    info[\"final_obs\"],\n                    info[\"_episode\"],\n                    strict=True,\n                )\n                if f\n            ]\n            for i, (r, l, o) in enumerate(finished_reward_len_obs):")]},
+    # forms read since the triage of the third seed batch: a factor computed before the loop, counting loops, helpers that hold a nested
+    # definition (read where they stand), further per-step flag inputs of the GAE (flag worlds), loop-free code evaluated for small lengths
+    {"id": "c07-nstep-hoisted-flag-not-inverted", "file": _R, "rule": "R2", "find": "    for t in range(reward.shape[1]):\n        n_step_return += discount * reward[:, t]\n        discount *= gamma * (1 - terminated[:, t])\n",
+     "replace": "    shrink = gamma * terminated\n    for t in range(reward.shape[1]):\n        n_step_return += discount * reward[:, t]\n        discount *= shrink[:, t]\n"},
+    {"id": "c07-rtg-while-forward", "file": _RE, "rule": "R3",
+     "edits": [("    for r in reversed(rewards):\n        accumulated_return *= gamma\n        accumulated_return += r\n        discounted_returns.append(accumulated_return)\n",
+                "    k = 0\n    while k < len(rewards):\n        accumulated_return = gamma * accumulated_return + rewards[k]\n        discounted_returns.append(accumulated_return)\n        k += 1\n")]},
+    {"id": "c07-rtg-while-skips-first-step", "file": _RE, "rule": "R3",
+     "edits": [("    for r in reversed(rewards):\n        accumulated_return *= gamma\n        accumulated_return += r\n        discounted_returns.append(accumulated_return)\n",
+                "    k = len(rewards) - 1\n    while k > 0:\n        accumulated_return = gamma * accumulated_return + rewards[k]\n        discounted_returns.append(accumulated_return)\n        k -= 1\n")]},
+    {"id": "c07-a2c-helper-axis0", "file": _A2, "rule": "R4",
+     "edits": [("    def get_gae_for_env(rewards, vals, next_val, terms):\n        return compute_gae(rewards, vals, next_val, terms, gamma, lmbda)\n\n    gae_result = jax.vmap(get_gae_for_env, in_axes=(1, 1, 1, 1))(\n        rewards, values, all_next_values, terminations\n    )\n",
+                "    gae_result = _advantages_of_each_env(gamma, lmbda, terminations, rewards, values, all_next_values)\n"),
+               ("def a2c_policy_gradient(", "def _advantages_of_each_env(discount, trace, dones, rews, vals, succ_vals):\n    def one_env(r, v, nv, d):\n        return compute_gae(r, v, nv, d, discount, trace)\n\n    return jax.vmap(one_env, in_axes=(0, 0, 0, 0))(rews, vals, succ_vals, dones)\n\n\ndef a2c_policy_gradient(")]},
+    {"id": "c07-enc-helper-mask-not-cumulative", "file": _E, "rule": "R5",
+     "edits": [("    pred_zs_t = encoder.encode_zs(batch.observation[:, 0])\n    not_done = 1 - batch.terminated\n",
+                "    parts = _roll_out_losses(batch, encoder, next_zs, the_bins, environment_terminates, encoder_horizon)\n    dynamics_loss = jnp.sum(parts[0])\n    reward_loss = jnp.sum(parts[1])\n    done_loss = jnp.sum(parts[2])\n    reward_mse = jnp.sum(parts[3])\n    total_loss = dynamics_weight * dynamics_loss + reward_weight * reward_loss + done_weight * done_loss\n    return total_loss, (dynamics_loss, reward_loss, done_loss, reward_mse)\n\n\n"
+                "def _roll_out_losses(batch, encoder, next_zs, the_bins, environment_terminates, encoder_horizon):\n    pred_zs_t = encoder.encode_zs(batch.observation[:, 0])\n    not_done = 1 - batch.terminated\n"),
+               ("        prev_not_done = not_done[:, t] * prev_not_done\n", "        prev_not_done = not_done[:, t]\n"),
+               ("    dynamics_loss = jnp.sum(dynamics_loss)\n    reward_loss = jnp.sum(reward_loss)\n    done_loss = jnp.sum(done_loss)\n    reward_mse = jnp.sum(reward_mse)\n\n    total_loss = (\n        dynamics_weight * dynamics_loss\n        + reward_weight * reward_loss\n        + done_weight * done_loss\n    )\n\n    return total_loss, (dynamics_loss, reward_loss, done_loss, reward_mse)",
+                "    return dynamics_loss, reward_loss, done_loss, reward_mse")]},
+    {"id": "c07-gae-sum-of-two-flags", "file": _G, "rule": "R1",
+     "edits": [("    lmbda: float = 0.95,\n)", "    lmbda: float = 0.95,\n    timeouts: jnp.ndarray | None = None,\n)"),
+               ("    def calc_advantage_per_step(carry, inputs):\n        gae = carry\n        reward, value, next_value, terminated = inputs\n", "    if timeouts is None:\n        timeouts = jnp.zeros_like(terminateds)\n    episode_over = timeouts + terminateds\n\n    def calc_advantage_per_step(carry, inputs):\n        gae = carry\n        reward, value, next_value, terminated, over = inputs\n"),
+               ("        gae = delta + gamma * lmbda * (1 - terminated) * gae", "        gae = delta + gamma * lmbda * (1 - over) * gae"),
+               ("(rewards[::-1], values[::-1], next_values[::-1], terminateds[::-1])", "(rewards[::-1], values[::-1], next_values[::-1], terminateds[::-1], episode_over[::-1])"),
+               ("@jax.jit\ndef compute_gae(", "def gae_of_rollout(rollout_buffer, values, next_values, gamma, lmbda):\n    return compute_gae(rollout_buffer.buffer[\"rewards\"], values, next_values, rollout_buffer.buffer[\"terminations\"], gamma, lmbda, rollout_buffer.buffer[\"truncations\"])\n\n\n@jax.jit\ndef compute_gae(")]},
+    {"id": "c07-nstep-vectorised-discounts-own-reward", "file": _R, "rule": "R2", "find": _NSTEP_LOOP,
+     "replace": "    keep = gamma * (1 - terminated)\n    running = jnp.cumprod(keep, axis=1)\n    n_step_return = jnp.sum(running * reward, axis=1)\n    return n_step_return, running[:, -1]"},
+    {"id": "c07-nstep-vectorised-last-flag-dropped", "file": _R, "rule": "R2", "find": _NSTEP_LOOP,
+     "replace": "    keep = gamma * (1 - terminated)\n    before = jnp.cumprod(jnp.concatenate([jnp.ones_like(keep[:, :1]), keep[:, :-1]], axis=1), axis=1)\n    n_step_return = (before * reward).sum(axis=1)\n    return n_step_return, gamma * before[:, -1]"},
+    {"id": "c07-rtg-vectorised-divides-by-discount", "file": _RE, "rule": "R3", "find": _RTG_LOOP,
+     "replace": "    steps = np.arange(len(rewards))\n    weights = np.power(gamma, steps)\n    tail_sums = np.flip(np.cumsum(np.flip(np.asarray(rewards) * weights)))\n    return tail_sums / weights"},
+    {"id": "c07-rtg-vectorised-forward-cumsum", "file": _RE, "rule": "R3", "find": _RTG_LOOP,
+     "replace": "    weights = gamma ** np.arange(len(rewards))\n    return np.cumsum(np.asarray(rewards) * weights)"},
+    {"id": "c07-enc-mask-hoisted-previous-step-only", "file": _E, "rule": "R5",
+     "edits": [("    prev_not_done = jnp.ones_like(not_done[:, 0])\n", "    mask_per_step = jnp.hstack([jnp.ones_like(not_done[:, :1]), not_done[:, :-1]])\n"),
+               ("        zs_t_and_prev_not_done,\n        encoder,", "        pred_zs_t,\n        encoder,"),
+               ("        pred_zs_t, prev_not_done = zs_t_and_prev_not_done\n", "        prev_not_done = not_done[:, t]\n"),
+               ("        # Update termination mask\n        prev_not_done = not_done[:, t] * prev_not_done\n", ""),
+               ("            (pred_zs_t, prev_not_done),\n            dynamics_loss,", "            pred_zs_t,\n            dynamics_loss,"),
+               ("        (pred_zs_t, prev_not_done),\n        encoder,\n        the_bins,\n        batch,\n        next_zs,\n        not_done,", "        pred_zs_t,\n        encoder,\n        the_bins,\n        batch,\n        next_zs,\n        mask_per_step,")]},
+    {"id": "c07-enc-mask-hoisted-includes-own-step", "file": _E, "rule": "R5",
+     "edits": [("    prev_not_done = jnp.ones_like(not_done[:, 0])\n", "    mask_per_step = jnp.cumprod(not_done, axis=1)\n"),
+               ("        zs_t_and_prev_not_done,\n        encoder,", "        pred_zs_t,\n        encoder,"),
+               ("        pred_zs_t, prev_not_done = zs_t_and_prev_not_done\n", "        prev_not_done = not_done[:, t]\n"),
+               ("        # Update termination mask\n        prev_not_done = not_done[:, t] * prev_not_done\n", ""),
+               ("            (pred_zs_t, prev_not_done),\n            dynamics_loss,", "            pred_zs_t,\n            dynamics_loss,"),
+               ("        (pred_zs_t, prev_not_done),\n        encoder,\n        the_bins,\n        batch,\n        next_zs,\n        not_done,", "        pred_zs_t,\n        encoder,\n        the_bins,\n        batch,\n        next_zs,\n        mask_per_step,")]},
 ]
 BENIGN = [
     {"id": "c07-b-gae-commuted", "file": _G, "find": "        gae = delta + gamma * lmbda * (1 - terminated) * gae", "replace": "        not_done = 1 - terminated\n        gae = delta + lmbda * gamma * gae * not_done"},
@@ -1278,4 +2679,40 @@ BENIGN = [
                                                                ("        pred_zs_t, prev_not_done = zs_t_and_prev_not_done\n", "        pred_zs_t = zs_t_and_prev_not_done.pred_zs\n        prev_not_done = zs_t_and_prev_not_done.still_running\n"),
                                                                ("            (pred_zs_t, prev_not_done),\n            dynamics_loss,", "            _RolloutCarry(pred_zs=pred_zs_t, still_running=prev_not_done),\n            dynamics_loss,"),
                                                                ("        (pred_zs_t, prev_not_done),\n        encoder,", "        _RolloutCarry(pred_zs_t, prev_not_done),\n        encoder,")]},
+    {"id": "c07-b-nstep-factor-before-loop", "file": _R, "find": "    for t in range(reward.shape[1]):\n        n_step_return += discount * reward[:, t]\n        discount *= gamma * (1 - terminated[:, t])\n",
+     "replace": "    keep = 1 - terminated\n    shrink = keep * gamma\n    steps = reward.shape[1]\n    for t in range(steps):\n        n_step_return += discount * reward[:, t]\n        discount = discount * shrink[:, t]\n"},
+    {"id": "c07-b-rtg-while-countdown", "file": _RE,
+     "edits": [("    for r in reversed(rewards):\n        accumulated_return *= gamma\n        accumulated_return += r\n        discounted_returns.append(accumulated_return)\n    return np.array(list(reversed(discounted_returns)))",
+                "    k = len(rewards) - 1\n    while k >= 0:\n        accumulated_return = rewards[k] + gamma * accumulated_return\n        discounted_returns.append(accumulated_return)\n        k -= 1\n    discounted_returns.reverse()\n    return np.array(discounted_returns)")]},
+    {"id": "c07-b-rtg-while-not-equal", "file": _RE,
+     "edits": [("    for r in reversed(rewards):\n        accumulated_return *= gamma\n        accumulated_return += r\n        discounted_returns.append(accumulated_return)\n",
+                "    left = len(rewards)\n    while left != 0:\n        left = left - 1\n        accumulated_return = rewards[left] + gamma * accumulated_return\n        discounted_returns.append(accumulated_return)\n")]},
+    {"id": "c07-b-rtg-reversed-range", "file": _RE,
+     "edits": [("    for r in reversed(rewards):\n        accumulated_return *= gamma\n        accumulated_return += r\n", "    for k in reversed(range(len(rewards))):\n        accumulated_return *= gamma\n        accumulated_return += rewards[k]\n")]},
+    {"id": "c07-b-rtg-descending-range", "file": _RE,
+     "edits": [("    for r in reversed(rewards):\n        accumulated_return *= gamma\n        accumulated_return += r\n", "    for k in range(len(rewards) - 1, -1, -1):\n        accumulated_return = accumulated_return * gamma + rewards[k]\n")]},
+    {"id": "c07-b-a2c-gae-helper-with-nested-wrapper", "file": _A2,
+     "edits": [("    def get_gae_for_env(rewards, vals, next_val, terms):\n        return compute_gae(rewards, vals, next_val, terms, gamma, lmbda)\n\n    gae_result = jax.vmap(get_gae_for_env, in_axes=(1, 1, 1, 1))(\n        rewards, values, all_next_values, terminations\n    )\n",
+                "    gae_result = _advantages_of_each_env(gamma, lmbda, terminations, rewards, values, all_next_values)\n"),
+               ("def a2c_policy_gradient(", "def _advantages_of_each_env(discount, trace, dones, rews, vals, succ_vals):\n    def one_env(r, v, nv, d):\n        return compute_gae(r, v, nv, d, discount, trace)\n\n    return jax.vmap(one_env, in_axes=(1, 1, 1, 1))(rews, vals, succ_vals, dones)\n\n\ndef a2c_policy_gradient(")]},
+    {"id": "c07-b-enc-roll-out-in-helper", "file": _E,
+     "edits": [("    pred_zs_t = encoder.encode_zs(batch.observation[:, 0])\n    not_done = 1 - batch.terminated\n",
+                "    parts = _roll_out_losses(batch, encoder, next_zs, the_bins, environment_terminates, encoder_horizon)\n    dynamics_loss = jnp.sum(parts[0])\n    reward_loss = jnp.sum(parts[1])\n    done_loss = jnp.sum(parts[2])\n    reward_mse = jnp.sum(parts[3])\n    total_loss = dynamics_weight * dynamics_loss + reward_weight * reward_loss + done_weight * done_loss\n    return total_loss, (dynamics_loss, reward_loss, done_loss, reward_mse)\n\n\n"
+                "def _roll_out_losses(batch, encoder, next_zs, the_bins, environment_terminates, encoder_horizon):\n    pred_zs_t = encoder.encode_zs(batch.observation[:, 0])\n    not_done = 1 - batch.terminated\n"),
+               ("    dynamics_loss = jnp.sum(dynamics_loss)\n    reward_loss = jnp.sum(reward_loss)\n    done_loss = jnp.sum(done_loss)\n    reward_mse = jnp.sum(reward_mse)\n\n    total_loss = (\n        dynamics_weight * dynamics_loss\n        + reward_weight * reward_loss\n        + done_weight * done_loss\n    )\n\n    return total_loss, (dynamics_loss, reward_loss, done_loss, reward_mse)",
+                "    return dynamics_loss, reward_loss, done_loss, reward_mse")]},
+    {"id": "c07-b-enc-starred-unpack-summed", "file": _E,
+     "edits": [("    _, dynamics_loss, reward_loss, done_loss, reward_mse = model_rollout(\n", "    _final_carry, *per_step = model_rollout(\n"),
+               ("    dynamics_loss = jnp.sum(dynamics_loss)\n    reward_loss = jnp.sum(reward_loss)\n    done_loss = jnp.sum(done_loss)\n    reward_mse = jnp.sum(reward_mse)\n", "    dynamics_loss, reward_loss, done_loss, reward_mse = [jnp.sum(x) for x in per_step]\n")]},
+    {"id": "c07-b-gae-optional-flags-never-passed", "file": _G,
+     "edits": [("    lmbda: float = 0.95,\n)", "    lmbda: float = 0.95,\n    timeouts: jnp.ndarray | None = None,\n)"),
+               ("    def calc_advantage_per_step(carry, inputs):\n        gae = carry\n        reward, value, next_value, terminated = inputs\n", "    if timeouts is None:\n        timeouts = jnp.zeros_like(terminateds)\n    episode_over = timeouts + terminateds\n\n    def calc_advantage_per_step(carry, inputs):\n        gae = carry\n        reward, value, next_value, terminated, over = inputs\n"),
+               ("        gae = delta + gamma * lmbda * (1 - terminated) * gae", "        gae = delta + gamma * lmbda * (1 - over) * gae"),
+               ("(rewards[::-1], values[::-1], next_values[::-1], terminateds[::-1])", "(rewards[::-1], values[::-1], next_values[::-1], terminateds[::-1], episode_over[::-1])")]},
+    {"id": "c07-b-gae-flags-passed-but-recurrence-unchanged", "file": _G,
+     "edits": [("    lmbda: float = 0.95,\n)", "    lmbda: float = 0.95,\n    timeouts: jnp.ndarray | None = None,\n)"),
+               ("@jax.jit\ndef compute_gae(", "def gae_of_rollout(rollout_buffer, values, next_values, gamma, lmbda):\n    return compute_gae(rollout_buffer.buffer[\"rewards\"], values, next_values, rollout_buffer.buffer[\"terminations\"], gamma, lmbda, rollout_buffer.buffer[\"truncations\"])\n\n\n@jax.jit\ndef compute_gae(")]},
+    {"id": "c07-b-rtg-while-truthy-counter", "file": _RE,
+     "edits": [("    for r in reversed(rewards):\n        accumulated_return *= gamma\n        accumulated_return += r\n        discounted_returns.append(accumulated_return)\n",
+                "    remaining = len(rewards)\n    while remaining:\n        remaining -= 1\n        accumulated_return = accumulated_return * gamma\n        accumulated_return = accumulated_return + rewards[remaining]\n        discounted_returns.append(accumulated_return)\n")]},
 ]
